@@ -6,7 +6,8 @@ from .. import au, sym, flow
 from ..sym import Poly
 from ..core import AnalysisError
 from ..rules import c0708 as H
-from .c07 import kinds_rule, _sum_over
+from ..rules import he_norm, he_seq, he_stencil as ST
+from .c07 import kinds_rule, _sum_over, run_steps, floor, _specialisations
 
 LAP = "operators.laplacian_op"
 GRAD = "operators.gradient_op"
@@ -16,12 +17,13 @@ CONN = "processing.connection"
 
 EXPLANATION = (
     "R-STENCIL over the assembly code of the operators: the (row, col, value) triples emitted per loop iteration are "
-    "extracted from the three idioms of the repository (parallel stores into rows/cols/values, the local add() helper, "
-    "lil[i,j] stores) and, with values as polynomial forms over opaque atoms, checked for symmetry, zero row sums, "
+    "extracted path by path from every storage idiom (parallel stores into rows/cols/values in one or several statements, running or "
+    "fixed slots, list appends, a local add() helper, lil[i,j] stores), after looking through private helpers, local aliases and "
+    "loops over literal tuples, and, with values as polynomial forms over opaque atoms, checked for symmetry, zero row sums, "
     "Hermitian pairing of the connection branches (phases modulo 2*pi*order, transport antisymmetry checked at its "
     "source), agreement of the real and complex gradient and its exactness on affine functions (polynomial identity), "
     "one entry per incidence for the adjacency / incidence operators, index-kind typing of rows, columns and every "
-    "subscript, and the build pattern of the diagonal mass matrices. Structural necessary conditions only: no matrix is built.")
+    "subscript, and the exponent of the diagonal mass matrices under every (inverse, sqrt) option. Structural necessary conditions only: no matrix is built.")
 
 RULES = {
     "C08-S1": "real stencils: every off-diagonal entry (i,j,x) has its transpose (j,i,x) in the same iteration and the entries of each row "
@@ -31,9 +33,10 @@ RULES = {
     "C08-S3": "adjacency_matrix: two entries per edge at transposed positions with equal value in every weight branch; vertex_to_edge_operator: "
               "one entry per endpoint, origin coefficient -1 iff oriented; vertex_to_face_operator: 1/len(T) per incidence",
     "C08-S4": "gradient: complex and real branch agree slot by slot, the three coefficients of a face sum to zero and the gradient of the local "
-              "coordinates is the identity (polynomial identity with the doubled signed area)",
+              "coordinates (projections in the basis of the connection) is the identity (polynomial identity with the doubled signed area)",
     "C08-M1": "mass matrices are sp.diags of a per-incidence accumulation (or of the measure attribute itself) indexed by the right element kind; "
-              "the inverse / sqrt switches act on that diagonal",
+              "under every (inverse, sqrt) option the diagonal is the measure to the power (-1 if inverse) * (1/2 if sqrt); a view of a cached "
+              "attribute is never modified in place",
     "C08-K1": "rows, columns and every subscript / connectivity call of the operator modules use ids of the element kind they address",
     "C08-O1": "the cotangent weight of edge (x,y) in a triangle is half the cotangent at the opposite vertex; the opposite vertex of an edge in a "
               "face is addressed with the local indices returned for that same face",
@@ -54,44 +57,25 @@ ASSUMPTIONS = [
 
 
 def run(ctx):
-    s1_s2_stencils(ctx)
-    s2_triangles(ctx)
-    s3_adjacency(ctx)
-    s4_gradient(ctx)
-    m1_mass(ctx)
-    kinds_rule(ctx, "C08-K1", [LAP, GRAD, MASS, ADJ, CONN], 50)
-    k1_matrix_axes(ctx)
-    o1_opposite(ctx)
-    n1_allocation(ctx)
-    t1_transport(ctx)
-    d1_inverse_branch(ctx)
-    b1_local_bases(ctx)
-    w1_option_dominance(ctx)
-    e1_edge_sides(ctx)
-
-
-# ----------------------------------------------------------------------- stencil units
-def units(st: H.Stencil, body):
-    """outermost loops whose body emits entries directly (on some path)"""
-    out = []
-    for s in body:
-        if isinstance(s, (ast.For, ast.While)):
-            paths = [p for p in st.paths(s.body) if H.consistent(p[0])]
-            if any(H.flat_emits(items) for _, items in paths):
-                out.append((s, paths))
-            else:
-                out.extend(units(st, s.body))
-        elif isinstance(s, ast.If):
-            out.extend(units(st, s.body))
-            out.extend(units(st, s.orelse))
-        elif isinstance(s, (ast.With, ast.Try)):
-            out.extend(units(st, s.body))
-    return out
+    steps = [("C08-S1", s1_s2_stencils), ("C08-S2", s2_triangles), ("C08-S3", s3_adjacency), ("C08-S4", s4_gradient), ("C08-M1", m1_mass),
+             ("C08-K1", lambda c: kinds_rule(c, "C08-K1", [LAP, GRAD, MASS, ADJ, CONN], 50)), ("C08-K1", k1_matrix_axes),
+             ("C08-O1", o1_opposite), ("C08-N1", n1_allocation), ("C08-T1", t1_transport), ("C08-D1", d1_inverse_branch),
+             ("C08-B1", b1_local_bases), ("C08-W1", w1_option_dominance), ("C08-E1", e1_edge_sides)]
+    run_steps(ctx, steps, LAP)
 
 
 def is_pi(e):
     c = au.chain(e)
     return bool(c) and c[-1] == "pi"
+
+
+def cond_label(conds):
+    out = []
+    for t, pol in conds:
+        s = au.canon_test(t, pol)
+        if s not in out:
+            out.append(s)
+    return ", ".join(out)
 
 
 class Values:
@@ -143,7 +127,41 @@ def _rect_of(x):
             break
     if isinstance(x, ast.Call) and au.call_tail(x) == "rect":
         return x, conj
+    if isinstance(x, ast.Call) and au.call_tail(x) == "exp" and len(x.args) == 1:
+        # exp(1j * phi) == rect(1, phi)
+        coef, num, den = H.factors(x.args[0]) if not _has_imag(x.args[0]) else _imag_factors(x.args[0])
+        if coef is not None:
+            phi = None
+            for f in num:
+                phi = f if phi is None else ast.BinOp(left=phi, op=ast.Mult(), right=f)
+            if phi is None:
+                phi = ast.Constant(value=1)
+            if coef != 1:
+                phi = ast.BinOp(left=ast.Constant(value=float(coef) if coef.denominator != 1 else int(coef)), op=ast.Mult(), right=phi)
+            for f in den:
+                phi = ast.BinOp(left=phi, op=ast.Div(), right=f)
+            return ast.Call(func=ast.Name(id="rect", ctx=ast.Load()), args=[ast.Constant(value=1), phi], keywords=[]), conj
     return None
+
+
+def _has_imag(e):
+    return any(isinstance(n, ast.Constant) and isinstance(n.value, complex) for n in ast.walk(e))
+
+
+def _imag_factors(e):
+    """(coef, num, den) of phi when e == 1j * phi (exactly one imaginary unit among the factors), (None, .., ..) otherwise"""
+    units = []
+
+    class T(ast.NodeTransformer):
+        def visit_Constant(self, n):
+            if isinstance(n.value, complex) and n.value.real == 0:
+                units.append(n.value.imag)
+                return ast.Constant(value=n.value.imag)
+            return n
+    e2 = T().visit(sym.clone(e))
+    if len(units) != 1:
+        return None, [], []
+    return H.factors(e2)
 
 
 def split_phase(e):
@@ -153,8 +171,9 @@ def split_phase(e):
     if len(ph) != 1:
         return None
     node, (rc, conj) = ph[0]
-    if len(rc.args) != 2 or au.const(rc.args[0]) not in (1, 1.0):
+    if len(rc.args) != 2 or not isinstance(au.const(rc.args[0]), (int, float)) or au.const(rc.args[0]) == 0:
         return None
+    coef = coef * Fraction(au.const(rc.args[0])).limit_denominator(10 ** 6)      # rect(r, phi): the modulus belongs to the magnitude
     rest = [x for x in num if x is not node]
     phi = rc.args[1]
     if conj:
@@ -170,56 +189,86 @@ def _multiple_of_2pi(p):
     return True
 
 
-def analyse_unit(ctx, rule_real, rule_cplx, modname, fn, loop, paths, antisym, flat="zero"):
+def _own_index(V, loop, row):
+    """is `row` the index variable of the assembly loop itself (each value visited exactly once)?"""
+    if not isinstance(row, ast.Name) or not isinstance(loop, ast.For):
+        return False
+    try:
+        F = he_seq.Forms(V)
+        L = he_seq.LoopCtx(F, loop.target, loop.iter, loop)
+    except Exception:
+        return False
+    d = L.names.get(row.id)
+    if d is None:
+        return False
+    return (d[0] == "idx" and d[2].is_zero()) or (d[0] == "at" and d[2] == 0 and any(d[1].endswith("." + k) for k in H.ID_PROPS if k.startswith("id_")))
+
+
+def nested_with_entries(path):
+    return [x for x in path.loops if any(q.entries for q in x[2])]
+
+
+def analyse_unit(ctx, rule_real, rule_cplx, modname, fn, V, loop, paths, antisym, flat="zero"):
     """symmetry and row sums of one assembly loop; returns (#real paths, #complex paths)"""
     n_real = n_cplx = 0
     q = fn.name
-    for conds, items in paths:
-        emits = H.flat_emits(items)
-        nested = [x for x in items if isinstance(x, tuple) and x[0] == "loop" and any(H.flat_emits(i) for _, i in x[2])]
+    for path in paths:
+        emits = path.entries
+        nested = nested_with_entries(path)
         if not emits and not nested:
             continue
-        _b = sym.Bindings(fn)
+        _b = sym.Bindings(V)
         cplx = any(has_phase(_b.resolve(e.val, at=e.node)) for e in emits)
         rule = rule_cplx if cplx else rule_real
         n_real += not cplx
         n_cplx += cplx
         site = ctx.site(modname, fn, emits[0].node if emits else loop)
-        label = q + ("" if not conds else " [" + ", ".join(("" if pol else "not ") + au.src(t) for t, pol in conds) + "]")
-        problems = []
-        vals = Values(fn, antisym_transport=antisym, unit_phase=True)
+        label = q + ("" if not path.conds else " [" + cond_label(path.conds) + "]")
+        for node, msg in path.problems + [pm for _, _, sps in path.loops for sp in sps for pm in sp.problems]:
+            ctx.fail("C08-N1", ctx.site(modname, fn, node), f"{q}: {msg}", "entries are stored on top of each other or at the wrong slot")
+        if path.unclear:
+            ctx.undecided(rule, site, f"{label}: some stores of the assembly could not be grouped into (row, col, value) entries ({path.unclear[0][1]})", "")
+            continue
+        problems, unclear = [], []
+        vals = Values(V, antisym_transport=antisym, unit_phase=True)
         # ---- row sums (phases set to zero on connection paths)
         rows = {}
         for e in emits:
             rows.setdefault(au.norm(e.row), Poly())
             rows[au.norm(e.row)] = rows[au.norm(e.row)] + vals.poly(e.val, e.node)
-            if au.same(e.row, e.col) and e.mode == "set":
-                problems.append(f"diagonal entry `{au.src(e.node)}` overwrites instead of accumulating")
+            if au.same(e.row, e.col) and e.mode == "set" and not _own_index(V, loop, e.row):
+                problems.append("a diagonal entry is overwritten (`M[i, i] = ..`) instead of accumulated, although several iterations contribute to it")
+        all_nested = []
         for _, lp, subpaths in nested:
-            for c2, it2 in subpaths:
-                sub = H.flat_emits(it2)
+            for sp in subpaths:
+                sub = sp.entries
                 if not sub:
                     continue
-                if c2 or any(isinstance(x, str) for x in it2):
-                    problems.append(f"entries of the neighbour loop `for {au.src(lp.target)} in {au.src(lp.iter)}` are conditional")
+                all_nested += sub
+                if sp.conds or sp.stop:
+                    unclear.append(f"entries of the neighbour loop over `{au.src(lp.iter)}` are conditional")
                 for e in sub:
                     v = vals.poly(e.val, e.node)
                     if not v.is_const():
-                        problems.append(f"neighbour entry `{au.src(e.node)}` has a value depending on the pair: symmetry cannot follow from "
-                                        f"the symmetry of the adjacency")
+                        unclear.append("a neighbour entry has a value depending on the pair: symmetry cannot follow from the symmetry of the adjacency")
                     if not isinstance(lp.target, ast.Name) or au.src(e.col) != lp.target.id or lp.target.id in au.names(e.row):
-                        problems.append(f"neighbour entry `{au.src(e.node)}` is not (element, neighbour)")
+                        unclear.append("a neighbour entry is not (element, neighbour)")
                     cnt = Poly.atom("len(" + au.src(vals.b.resolve(lp.iter, at=lp)) + ")")
                     rows.setdefault(au.norm(e.row), Poly())
                     rows[au.norm(e.row)] = rows[au.norm(e.row)] + v * cnt
         for r, p in rows.items():
             if not p.is_zero():
-                rname = [au.src(e.row) for e in emits + [x for _, _, sp in nested for _, i in sp for x in H.flat_emits(i)] if au.norm(e.row) == r][0]
+                rname = [au.src(e.row) for e in emits + all_nested if au.norm(e.row) == r][0]
+                foreign = [a for a in p.atoms() if a.startswith("⟨") and "(" in a and not a.startswith("⟨len(")]
+                if foreign and not cplx:
+                    # the residual is made of calls the rule does not evaluate (a degree obtained from another query ...): equal values may be spelled differently
+                    unclear.append(f"the entries of row `{rname}` could not be summed symbolically (they involve `{foreign[0][1:-1][:50]}`)")
+                    continue
                 problems.append(f"entries of row `{rname}` emitted in one iteration sum to {p}, not to zero"
                                 + (" (with all phases set to zero)" if cplx else ""))
         # ---- symmetry / Hermitian pairing
         off = [e for e in emits if not au.same(e.row, e.col)]
-        vals_sym = Values(fn, antisym_transport=antisym, unit_phase=False)
+        vals_sym = Values(V, antisym_transport=antisym, unit_phase=False)
         used = set()
         for e in off:
             if id(e) in used:
@@ -236,7 +285,7 @@ def analyse_unit(ctx, rule_real, rule_cplx, modname, fn, loop, paths, antisym, f
             else:
                 se, sf = split_phase(vals_sym.b.resolve(e.val, at=e.node)), split_phase(vals_sym.b.resolve(f.val, at=f.node))
                 if se is None or sf is None:
-                    problems.append(f"connection entry ({au.src(e.row)}, {au.src(e.col)}) is not magnitude * rect(1, phase)")
+                    unclear.append(f"connection entry ({au.src(e.row)}, {au.src(e.col)}) is not read as magnitude * rect(1, phase)")
                     continue
                 if (se[0], se[1]) != (sf[0], sf[1]):
                     problems.append(f"magnitudes of ({au.src(e.row)}, {au.src(e.col)}) and of its transpose differ")
@@ -249,7 +298,7 @@ def analyse_unit(ctx, rule_real, rule_cplx, modname, fn, loop, paths, antisym, f
                     problems.append(f"phases of ({au.src(e.row)}, {au.src(e.col)}) and of its transpose sum to {tot}, not to a multiple of 2*pi*order: "
                                     f"the matrix is not Hermitian")
                 # flat connection: the operator must be the scalar Laplacian for EVERY integer order
-                vals_flat = Values(fn, flat=flat)
+                vals_flat = Values(V, flat=flat)
                 for g, sg in ((e, se), (f, sf)):
                     ph = vals_flat.poly(sg[2], g.node)
                     if not _multiple_of_2pi(ph):
@@ -257,10 +306,14 @@ def analyse_unit(ctx, rule_real, rule_cplx, modname, fn, loop, paths, antisym, f
                                  if flat == "vertex" else "transport = 0")
                         problems.append(f"for the flat connection ({model}) the phase of entry ({au.src(g.row)}, {au.src(g.col)}) is {ph}, "
                                         f"not a multiple of 2*pi for every integer order: the operator does not reduce to the scalar Laplacian (odd orders flip the sign)")
-        ctx.check(not problems, rule, site, f"{label}: " + "; ".join(dict.fromkeys(problems)),
-                  "a Laplacian must be symmetric (Hermitian with a connection) and annihilate constants" if not cplx else
-                  "a connection Laplacian must be Hermitian and reduce to the scalar Laplacian for the trivial connection",
-                  note=f"{label}: {len(emits)} direct + {sum(len(H.flat_emits(i)) for _, _, sp in nested for _, i in sp)} neighbour entries")
+        if problems:
+            ctx.fail(rule, site, f"{label}: " + "; ".join(dict.fromkeys(problems)),
+                     "a Laplacian must be symmetric (Hermitian with a connection) and annihilate constants" if not cplx else
+                     "a connection Laplacian must be Hermitian and reduce to the scalar Laplacian for the trivial connection")
+        elif unclear:
+            ctx.undecided(rule, site, f"{label}: " + "; ".join(dict.fromkeys(unclear)), "")
+        else:
+            ctx.ok(rule, site, f"{label}: {len(emits)} direct + {len(all_nested)} neighbour entries")
     return n_real, n_cplx
 
 
@@ -270,34 +323,125 @@ STENCILS = [  # function, antisymmetric transport assumed (checked by C08-T1), f
 ]
 
 
+def _method_view(ctx, modname, clsname, meth):
+    """view of a method looked up through the MRO of the class (a base-class implementation is read with the receiver's overrides)"""
+    m = ctx.repo.module(modname)
+    cls = ctx.repo.cls(modname, clsname)
+    ms = ctx.repo.methods(m, cls)
+    if meth not in ms:
+        return None, None
+    om, fn, owner = ms[meth]
+    return fn, he_norm.view(ctx.repo, om.name, fn, cls=(m, cls))
+
+
 def flat_premises(ctx):
     """the flat-connection models used by C08-S2 are read off processing/connection.py"""
-    fn = ctx.repo.func(CONN, "FlatConnectionVertices.transport")
-    b = sym.Bindings(fn)
-    ps = au.params(fn, skip_self=True)
-    r = [s for s in au.stmts(fn.body) if isinstance(s, ast.Return) and s.value is not None]
-    ok = False
-    if len(r) == 1 and len(ps) == 2:
-        e = b.resolve(r[0].value, at=r[0])
-        if isinstance(e, ast.Call) and au.call_tail(e) in ("arctan2", "atan2") and len(e.args) == 2:
+    fn, V = _method_view(ctx, CONN, "FlatConnectionVertices", "transport")
+    site = ctx.site(CONN, "FlatConnectionVertices.transport")
+    e = he_norm.return_expr(V) if V is not None else None
+    ok = None
+    if e is not None and fn is not None:
+        ps = au.params(fn, skip_self=True)
+        if isinstance(e, ast.Call) and au.call_tail(e) in ("arctan2", "atan2") and len(e.args) == 2 and len(ps) == 2:
             comps = []
             for a, want in zip(e.args, ("y", "x")):
                 base = None
-                if isinstance(a, ast.Attribute) and a.attr == want:
-                    base = a.value
-                elif isinstance(a, ast.Subscript) and au.const(a.slice) == (1 if want == "y" else 0):
-                    base = a.value
+                if isinstance(a, ast.Attribute) and a.attr in ("x", "y"):
+                    base = (a.value, a.attr)
+                elif isinstance(a, ast.Subscript) and au.const(a.slice) in (0, 1):
+                    base = (a.value, "xy"[au.const(a.slice)])
                 comps.append(base)
-            if None not in comps and au.same(comps[0], comps[1]) and isinstance(comps[0], ast.BinOp) and isinstance(comps[0].op, ast.Sub):
+            if None not in comps and au.same(comps[0][0], comps[1][0]) and isinstance(comps[0][0], ast.BinOp) and isinstance(comps[0][0].op, ast.Sub):
                 def vid(x):
                     return au.src(x.slice) if isinstance(x, ast.Subscript) and au.chain(x.value) and au.chain(x.value)[-1] == "vertices" else None
-                ok = [vid(comps[0].left), vid(comps[0].right)] == [ps[1], ps[0]]
-    ctx.check(ok, "C08-S2", ctx.site(CONN, fn), "FlatConnectionVertices.transport is not the polar angle atan2(E.y, E.x) of the edge vector E = P[iB] - P[iA]",
-              "premise of the flat reduction: transport(j,i) = transport(i,j) + pi (mod 2*pi)", note="flat vertex transport = polar angle of the edge")
-    fn = ctx.repo.func(CONN, "FlatConnectionFaces.transport")
-    r = [s for s in au.stmts(fn.body) if isinstance(s, ast.Return)]
-    ctx.check(len(r) == 1 and au.const(r[0].value) in (0, 0.0), "C08-S2", ctx.site(CONN, fn), "FlatConnectionFaces.transport does not return 0",
-              "premise of the flat reduction for face / edge based operators", note="flat face transport = 0")
+                ends = [vid(comps[0][0].left), vid(comps[0][0].right)]
+                if None not in ends:
+                    ok = [comps[0][1], comps[1][1]] == ["y", "x"] and ends == [ps[1], ps[0]]
+    if ok is None:
+        ctx.undecided("C08-S2", site, "FlatConnectionVertices.transport: the polar angle atan2(E.y, E.x) of the edge vector not recognised",
+                      "premise of the flat reduction: transport(j,i) = transport(i,j) + pi (mod 2*pi)")
+    else:
+        ctx.check(ok, "C08-S2", site, "FlatConnectionVertices.transport is not the polar angle atan2(E.y, E.x) of the edge vector E = P[iB] - P[iA]",
+                  "premise of the flat reduction: transport(j,i) = transport(i,j) + pi (mod 2*pi)", note="flat vertex transport = polar angle of the edge")
+    fn, V = _method_view(ctx, CONN, "FlatConnectionFaces", "transport")
+    site = ctx.site(CONN, "FlatConnectionFaces.transport")
+    e = he_norm.return_expr(V) if V is not None else None
+    if e is None or not isinstance(au.const(e), (int, float)):
+        ctx.undecided("C08-S2", site, "FlatConnectionFaces.transport: constant transport not recognised", "premise of the flat reduction for face / edge based operators")
+    else:
+        ctx.check(au.const(e) in (0, 0.0), "C08-S2", site, "FlatConnectionFaces.transport does not return 0",
+                  "premise of the flat reduction for face / edge based operators", note="flat face transport = 0")
+
+
+class _Recorder:
+    """records the verdicts of an analysis so that the caller can decide to replay them or to try another reading of the code first"""
+
+    def __init__(self, ctx):
+        self.ctx, self.log = ctx, []
+        self.repo = ctx.repo
+
+    def site(self, *a, **k):
+        return self.ctx.site(*a, **k)
+
+    def ok(self, *a, **k):
+        self.log.append(("ok", a, k))
+
+    def fail(self, *a, **k):
+        self.log.append(("fail", a, k))
+
+    def undecided(self, *a, **k):
+        self.log.append(("undecided", a, k))
+
+    def check(self, cond, rule, site, construct, what, note="", **detail):
+        if cond:
+            self.ok(rule, site, note or construct)
+        else:
+            self.fail(rule, site, construct, what, **detail)
+        return cond
+
+    @property
+    def failed(self):
+        return any(k == "fail" for k, _, _ in self.log)
+
+    def replay(self, demote=False):
+        for kind, a, k in self.log:
+            if kind == "fail" and demote:
+                self.ctx.undecided(a[0], a[1], a[2], "the assembly is split over several loops that could not be read as one stencil")
+            else:
+                getattr(self.ctx, kind)(*a, **k)
+
+
+def _merge_units(us):
+    """units (loops) with the same header and the same guards are one stencil written in several passes (loop fission): their paths are
+    combined pairwise.  Returns the merged unit list, or None when the loops cannot be aligned."""
+    groups = {}
+    for loop, paths in us:
+        key = (au.src(loop.target), au.src(loop.iter), tuple(sorted(H.canon_facts(loop, toplevel=False)))) if isinstance(loop, ast.For) else None
+        if key is None:
+            return None
+        groups.setdefault(key, []).append((loop, paths))
+    if all(len(g) == 1 for g in groups.values()):
+        return None
+    out = []
+    for g in groups.values():
+        loop0, merged = g[0]
+        for loop, paths in g[1:]:
+            nxt = []
+            for p in merged:
+                for q in paths:
+                    if not ST.consistent(p.conds + q.conds):
+                        continue
+                    r = ST.Path()
+                    r.conds = p.conds + [c for c in q.conds if not any(au.same(c[0], d[0]) and c[1] == d[1] for d in p.conds)]
+                    r.items = p.items + q.items
+                    r.problems, r.unclear = p.problems + q.problems, p.unclear + q.unclear
+                    r.stop = p.stop or q.stop
+                    nxt.append(r)
+            merged = nxt
+            if len(merged) > 256:
+                return None
+        out.append((loop0, merged))
+    return out
 
 
 def s1_s2_stencils(ctx):
@@ -305,31 +449,51 @@ def s1_s2_stencils(ctx):
     flat_premises(ctx)
     for name, antisym, flat in STENCILS:
         fn = ctx.repo.func(LAP, name)
-        st = H.Stencil(fn)
-        us = units(st, fn.body)
+        V = H.fview(ctx, LAP, fn)
+        st = ST.Stencil(V)
         site = ctx.site(LAP, fn)
+        try:
+            us = ST.units(st, V.body)
+        except OverflowError:
+            us = []
         if not us:
-            ctx.fail("C08-S1", site, f"{name}: assembly loop not found (no rows/cols/values stores, add() calls or lil[i,j] stores)",
-                     "the stencil of the operator can no longer be extracted")
+            ctx.undecided("C08-S1", site, f"{name}: assembly loop not recognised (no rows/cols/values stores, appends, add() calls or lil[i,j] stores)",
+                          "the stencil of the operator could not be extracted")
             continue
-        for node, msg in st.problems:
-            ctx.fail("C08-N1", ctx.site(LAP, fn, node), f"{name}: {msg}", "entries are stored on top of each other or at the wrong slot")
         a = b = 0
+        rec = _Recorder(ctx)
         for loop, paths in us:
-            x, y = analyse_unit(ctx, "C08-S1", "C08-S2", LAP, fn, loop, paths, antisym, flat or "zero")
+            x, y = analyse_unit(rec, "C08-S1", "C08-S2", LAP, fn, V, loop, paths, antisym, flat or "zero")
             a, b = a + x, b + y
+        if rec.failed and len(us) > 1:
+            # several assembly loops: read them as one stencil written in several passes before judging each pass on its own
+            merged = _merge_units(us)
+            if merged is None:
+                rec.replay(demote=True)
+            else:
+                rec2 = _Recorder(ctx)
+                a = b = 0
+                for loop, paths in merged:
+                    x, y = analyse_unit(rec2, "C08-S1", "C08-S2", LAP, fn, V, loop, paths, antisym, flat or "zero")
+                    a, b = a + x, b + y
+                rec2.replay()
+        else:
+            rec.replay()
         if a == 0:
-            ctx.fail("C08-S1", site, f"{name}: no real assembly path found", "")
+            ctx.undecided("C08-S1", site, f"{name}: no real assembly path recognised", "")
         if b == 0 and "connection" in au.params(fn):
-            ctx.fail("C08-S2", site, f"{name}: assembly path of the connection branch (entries of the form m * rect(1, phase)) not found",
-                     "the function takes a connection but its complex stencil can no longer be extracted")
+            ctx.undecided("C08-S2", site, f"{name}: assembly path of the connection branch (entries of the form m * rect(1, phase)) not recognised",
+                          "the function takes a connection but its complex stencil could not be extracted")
         nr, nc = nr + a, nc + b
-    ctx.require_count("C08-S1 real stencil paths", nr, 2)
+    floor(ctx, "C08-S1", nr, 1, LAP, "real stencil path(s)")
 
 
 # ----------------------------------------------------------------------- C08-S2 (laplacian_triangles)
-def _is_adjoint_of(e, name):
-    """e is the conjugate transpose of Name `name`"""
+ADJ_OPS = (["conj", "transpose"], ["T", "conj"], ["conjugate", "transpose"], ["T", "conjugate"], ["getH"], ["H"])
+
+
+def _matrix_ops(e):
+    """(base name, sorted attribute / method chain) of  N.conj().transpose() ...; None when not such a chain"""
     ops = []
     while True:
         if isinstance(e, ast.Call) and isinstance(e.func, ast.Attribute) and not e.args:
@@ -340,55 +504,82 @@ def _is_adjoint_of(e, name):
             e = e.value
         else:
             break
-    if not (isinstance(e, ast.Name) and e.id == name):
-        return False
-    ops = sorted(ops)
-    return ops in (["conj", "transpose"], ["T", "conj"], ["conjugate", "transpose"], ["T", "conjugate"], ["getH"], ["H"])
+    if not isinstance(e, ast.Name):
+        return None
+    return e.id, sorted(o for o in ops if o not in ("tocsc", "tocsr", "tocoo", "copy"))
 
 
 def s2_triangles(ctx):
     fn = ctx.repo.func(LAP, "laplacian_triangles")
     site = ctx.site(LAP, fn)
-    b = sym.Bindings(fn)
-    st = H.Stencil(fn)
+    V = H.fview(ctx, LAP, fn)
+    b = sym.Bindings(V)
+    st = ST.Stencil(V)
     # the product pattern
-    rets = [s for s in au.stmts(fn.body) if isinstance(s, ast.Return) and s.value is not None]
+    rets = [s for s in au.stmts(V.body) if isinstance(s, ast.Return) and s.value is not None]
     n = 0
     for r in rets:
         chain = []
         e = r.value
+        if isinstance(e, ast.Name):
+            d = b.reaching(e.id, r)
+            e = d if d is not None else e
         while isinstance(e, ast.BinOp) and isinstance(e.op, ast.MatMult):
             chain.insert(0, e.right)
             e = e.left
         chain.insert(0, e)
+        rsite = ctx.site(LAP, fn, r)
+        if len(chain) not in (2, 3):
+            ctx.undecided("C08-S2", rsite, "laplacian_triangles: a returned value is not read as a product N^H @ [D] @ N", "")
+            continue
         n += 1
-        ok = len(chain) in (2, 3) and isinstance(chain[-1], ast.Name)
-        if ok:
-            right = chain[-1].id
-            left = b.resolve(chain[0], at=r, keep=(right,))
-            ok = _is_adjoint_of(left, right)
-            if ok and len(chain) == 3:
-                d = b.resolve(chain[1], at=r)
-                ok = isinstance(d, ast.Call) and au.call_tail(d) == "cotan_edge_diagonal"
-        ctx.check(ok, "C08-S2", ctx.site(LAP, fn, r), f"laplacian_triangles: `{au.src(r.value)}` is not N^H @ [cotan_edge_diagonal] @ N",
+        stop = [nm for nm in sym.Bindings(V).defs if isinstance(sym.Bindings(V).defs[nm], ast.Call) and au.call_tail(sym.Bindings(V).defs[nm]) in ("lil_matrix", "coo_matrix", "csc_matrix", "csr_matrix", "tocsc", "tocsr")]
+        left = _matrix_ops(b.resolve(chain[0], at=r, keep=tuple(stop)))
+        rgt = _matrix_ops(b.resolve(chain[-1], at=r, keep=tuple(stop)))
+        if left is None or rgt is None or left[0] != rgt[0]:
+            ctx.undecided("C08-S2", rsite, "laplacian_triangles: the outer factors of the returned product are not read as transforms of one matrix N", "")
+            continue
+        problems = []
+        adj = [sorted(x) for x in ADJ_OPS]
+        if rgt[1] in adj and left[1] == []:
+            problems.append("the product is N @ [D] @ N^H: the conjugate transpose is on the right")
+        elif rgt[1] != [] or left[1] not in adj:
+            problems.append(f"the left factor applies {left[1] or 'nothing'} and the right factor {rgt[1] or 'nothing'} to N: not (conjugate transpose of N) @ [D] @ N")
+        if len(chain) == 3:
+            d = b.resolve(chain[1], at=r)
+            if not (isinstance(d, ast.Call) and au.call_tail(d) == "cotan_edge_diagonal"):
+                if isinstance(d, ast.Call):
+                    problems.append(f"the middle factor is `{au.call_tail(d)}(..)`, not the diagonal of cotangent weights")
+                else:
+                    ctx.undecided("C08-S2", rsite, "laplacian_triangles: the middle factor of the returned product not recognised", "")
+                    continue
+        ctx.check(not problems, "C08-S2", rsite, "laplacian_triangles: " + "; ".join(problems),
                   "only the form (conjugate transpose of N) * (real diagonal) * N is Hermitian positive semi-definite by construction",
                   note="N^H [D] N")
-    if n < 2:
-        ctx.fail("C08-S2", site, f"laplacian_triangles: {n} returned product(s) found instead of the weighted and unweighted N^H N forms", "")
+    if n < 1:
+        ctx.undecided("C08-S2", site, "laplacian_triangles: returned products N^H @ [D] @ N not recognised", "")
     fd = ctx.repo.func(LAP, "cotan_edge_diagonal")
-    rd = [s for s in au.stmts(fd.body) if isinstance(s, ast.Return) and s.value is not None]
-    ctx.check(len(rd) == 1 and isinstance(rd[0].value, ast.Call) and au.call_tail(rd[0].value) == "diags", "C08-S2", ctx.site(LAP, fd),
-              "cotan_edge_diagonal does not return sp.diags(...)", "the middle factor must be diagonal")
+    e = he_norm.return_expr(H.fview(ctx, LAP, fd))
+    if isinstance(e, ast.Call) and au.call_tail(e) in ("diags", "dia_matrix", "spdiags"):
+        ctx.ok("C08-S2", ctx.site(LAP, fd), "cotan_edge_diagonal returns a diagonal matrix")
+    else:
+        ctx.undecided("C08-S2", ctx.site(LAP, fd), "cotan_edge_diagonal: returned diagonal matrix sp.diags(...) not recognised", "the middle factor must be diagonal")
     # rows of Nabla: -1 on one side, unit-modulus coefficient on the other
-    us = units(st, fn.body)
+    us = ST.units(st, V.body)
     m = 0
     for loop, paths in us:
-        for conds, items in paths:
-            emits = H.flat_emits(items)
+        for path in paths:
+            emits = path.entries
             if not emits:
                 continue
+            esite = ctx.site(LAP, fn, emits[0].node)
+            for node, msg in path.problems:
+                ctx.fail("C08-N1", ctx.site(LAP, fn, node), f"laplacian_triangles: {msg}", "")
+            if path.unclear:
+                ctx.undecided("C08-S2", esite, f"laplacian_triangles: stores of the dual gradient could not be grouped into entries ({path.unclear[0][1]})", "")
+                continue
             m += 1
-            vals = Values(fn, unit_phase=True)
+            vals = Values(V, unit_phase=True)
             tot = Poly()
             for e in emits:
                 tot = tot + vals.poly(e.val, e.node)
@@ -396,13 +587,21 @@ def s2_triangles(ctx):
             cols = {au.norm(e.col) for e in emits}
             unit = all(not has_phase(e.val) or split_phase(e.val) is not None and split_phase(e.val)[0] in (1, -1) and split_phase(e.val)[1] == ((), ())
                        for e in emits)
-            ok = len(emits) == 2 and len(rows) == 1 and len(cols) == 2 and tot.is_zero() and unit
-            ctx.check(ok, "C08-S2", ctx.site(LAP, fn, emits[0].node),
-                      f"laplacian_triangles: the dual-edge row emits {emits} - expected one -1 and one unit-modulus +1 entry in two different columns",
+            problems = []
+            if len(rows) != 1:
+                problems.append("one iteration writes into several rows")
+            elif len(emits) != 2 or len(cols) != 2:
+                problems.append(f"the row of an edge receives {len(emits)} entr{'y' if len(emits) == 1 else 'ies'} in {len(cols)} column(s) "
+                                f"[{cond_label(path.conds)}] - expected one -1 and one +1 entry in the columns of its two faces")
+            elif not tot.is_zero():
+                problems.append(f"the two entries of a row sum to {tot} (phases set to one), not to zero")
+            elif not unit:
+                problems.append("an entry of the dual gradient is not of unit modulus")
+            ctx.check(not problems, "C08-S2", esite, "laplacian_triangles: " + "; ".join(problems),
                       "each interior edge contributes the difference of its two faces; constants must be in the kernel when the connection is trivial",
                       note="Nabla row: -1 / +1 (or unit phase)")
-    if m < 2:
-        ctx.fail("C08-S2", site, f"laplacian_triangles: {m} assembly path(s) of the dual gradient N found instead of the real / connection pair", "")
+    if m < 1:
+        ctx.undecided("C08-S2", site, "laplacian_triangles: assembly of the dual gradient N not recognised", "")
 
 
 # ----------------------------------------------------------------------- C08-S3
@@ -419,100 +618,32 @@ def _slot(e, var):
     return None
 
 
-def _edge_loop(loop):
-    """(index var, [row names]) of `for e,(a,b) in enumerate(mesh.edges)` / `for e in mesh.id_edges`"""
-    if isinstance(loop.iter, ast.Call) and au.call_tail(loop.iter) == "enumerate" and loop.iter.args \
-            and au.chain(loop.iter.args[0]) and au.chain(loop.iter.args[0])[-1] == "edges" \
-            and isinstance(loop.target, ast.Tuple) and len(loop.target.elts) == 2 and isinstance(loop.target.elts[0], ast.Name):
-        r = loop.target.elts[1]
-        names = [x.id for x in r.elts] if isinstance(r, (ast.Tuple, ast.List)) and all(isinstance(x, ast.Name) for x in r.elts) else []
-        return loop.target.elts[0].id, names
-    if au.chain(loop.iter) and au.chain(loop.iter)[-1] == "id_edges" and isinstance(loop.target, ast.Name):
-        return loop.target.id, []
-    if isinstance(loop.iter, ast.Call) and au.call_tail(loop.iter) == "range" and len(loop.iter.args) == 1 and isinstance(loop.target, ast.Name):
-        return loop.target.id, []
-    return None
+def _edge_loop(F, loop):
+    """(edge index name, [endpoint names]) of a loop over the edges in any spelling"""
+    L = he_seq.LoopCtx(F, loop.target, loop.iter, loop)
+    if L.seq is None or L.seq.base is None or not (L.seq.base.endswith(".edges") or L.seq.base.endswith(".id_edges")):
+        return None
+    idx = [nm for nm, d in L.names.items() if (d[0] == "idx" and d[2].is_zero()) or (d[0] == "at" and d[1].endswith(".id_edges") and d[2] == 0)]
+    ends = next(iter(L.rows.values()), [])
+    if len(idx) != 1:
+        return None
+    return idx[0], [x for x in ends if x]
 
 
-def _adjacency_looped(ctx, fn, site, b, arrays, do_rc=True, do_vals=True):
-    if True:
-        d, r, c = arrays
-        # stores per array, per enclosing loop
-        stores = {d: [], r: [], c: []}
-        for s in au.stmts(fn.body):
-            if isinstance(s, ast.Assign) and len(s.targets) == 1 and isinstance(s.targets[0], ast.Subscript) \
-                    and isinstance(s.targets[0].value, ast.Name) and s.targets[0].value.id in stores:
-                loops = [a for a in au.ancestors(s) if isinstance(a, ast.For)]
-                stores[s.targets[0].value.id].append((s, loops[0] if loops else None))
-        # rows / cols
-        problems = []
-        if not do_rc:
-            stores[r], stores[c] = [], []
-        rc = {}
-        for arr in (r, c):
-            for s, lp in stores[arr]:
-                el = _edge_loop(lp) if lp is not None else None
-                sl = _slot(s.targets[0].slice, el[0]) if el else None
-                if not el or sl is None or au.guards(s, stop=lp):
-                    problems.append(f"`{au.src(s)}` is not an unconditional store at slot 2*e+k of the edge loop")
-                    continue
-                if sl in rc.get(arr, {}):
-                    problems.append(f"slot {sl[0]}*e+{sl[1]} of {arr} is stored twice")
-                rc.setdefault(arr, {})[sl] = (au.src(s.value), tuple(el[1]))
-        if do_rc:
-            if not problems:
-                slots = sorted(rc.get(r, {}))
-                if slots != [(2, 0), (2, 1)] or sorted(rc.get(c, {})) != slots:
-                    problems.append(f"rows are stored at slots {sorted(rc.get(r, {}))}, cols at {sorted(rc.get(c, {}))}: expected 2*e and 2*e+1 for both")
-                else:
-                    (r0, ends), (r1, _) = rc[r][(2, 0)], rc[r][(2, 1)]
-                    c0, c1 = rc[c][(2, 0)][0], rc[c][(2, 1)][0]
-                    if not (r0 == c1 and r1 == c0 and r0 != r1 and {r0, r1} == set(ends) and len(ends) == 2):
-                        problems.append(f"edge entries are ({r0},{c0}) and ({r1},{c1}): expected (a,b) and (b,a) for the endpoints {list(ends)}")
-            ctx.check(not problems, "C08-S3", site, "adjacency_matrix: " + "; ".join(problems),
-                      "M[i,j] = M[j,i] = w for every edge (i,j): both transposed positions must be written", note="rows/cols: (a,b) at 2e, (b,a) at 2e+1")
-        # values per weight branch
-        if not do_vals:
-            return
-        nb = 0
-        val_assigns = [s for s in au.stmts(fn.body) if isinstance(s, ast.Assign) and any(isinstance(t, ast.Name) and t.id == d for t in s.targets)]
-        for s in val_assigns:
-            blk, owner = au.enclosing_block(s)
-            nb += 1
-            mine = [(x, lp) for x, lp in stores[d] if any(x is y for y in au.stmts(blk))]
-            alloc = s.value
-            bsite = ctx.site(ADJ, fn, s)
-            if isinstance(alloc, ast.Call) and au.call_tail(alloc) in ("ones", "full"):
-                ctx.check(not mine, "C08-S3", bsite, "adjacency_matrix: constant weights are overwritten in the same branch", "", note="constant weights")
-                continue
-            pr = []
-            sl = {}
-            for x, lp in mine:
-                el = _edge_loop(lp) if lp is not None else None
-                k = _slot(x.targets[0].slice, el[0]) if el else None
-                if k is None or au.guards(x, stop=lp):
-                    pr.append(f"`{au.src(x)}` is not an unconditional store at slot 2*e+k")
-                else:
-                    sl[k] = au.norm(b.resolve(x.value, at=x, keep=(el[0],)))
-            if not pr and (sorted(sl) != [(2, 0), (2, 1)] or sl[(2, 0)] != sl[(2, 1)]):
-                pr.append(f"the two entries of an edge receive different / missing weights (slots {sorted(sl)})")
-            ctx.check(not pr, "C08-S3", bsite, "adjacency_matrix: " + "; ".join(pr),
-                      "both entries (i,j) and (j,i) of an edge carry the same weight", note="equal weights at 2e and 2e+1")
-        if nb < 3:
-            ctx.fail("C08-S3", site, f"adjacency_matrix: {nb} weight branch(es) building `{d}` found instead of the three options (one / length / custom dict)", "")
-
-
-# -- vectorised layouts of the adjacency triples -------------------------------------------------
 def _edge_table(e):
-    """is e the |E| x 2 integer table of the edges?  (np.array(mesh.edges).reshape((m, 2)) and the like)"""
+    """is e the |E| x 2 table of the edges?  (np.array(mesh.edges).reshape((m, 2)) and the like)"""
     while isinstance(e, ast.Call) and isinstance(e.func, ast.Attribute) and e.func.attr in ("reshape", "astype", "copy"):
         if e.func.attr == "reshape":
             shp = e.args[0] if len(e.args) == 1 else ast.Tuple(elts=list(e.args), ctx=ast.Load())
             if not (isinstance(shp, ast.Tuple) and len(shp.elts) == 2 and au.const(shp.elts[1]) == 2):
                 return False
         e = e.func.value
-    return isinstance(e, ast.Call) and au.call_tail(e) in ("array", "asarray") and e.args and au.chain(e.args[0]) is not None \
-        and au.chain(e.args[0])[-1] == "edges"
+    if not (isinstance(e, ast.Call) and au.call_tail(e) in ("array", "asarray") and e.args):
+        return False
+    a = e.args[0]
+    if isinstance(a, ast.Call) and isinstance(a.func, ast.Name) and a.func.id in ("list", "tuple") and len(a.args) == 1:
+        a = a.args[0]
+    return au.chain(a) is not None and au.chain(a)[-1] == "edges"
 
 
 def _layout(e):
@@ -532,6 +663,8 @@ def _layout(e):
                 return ("col", base[1][k])
             if isinstance(k, list) and sorted(k) == [0, 1]:
                 return ("cols", tuple(base[1][i] for i in k))
+    if isinstance(e, ast.Attribute) and e.attr == "T":
+        return None
     if isinstance(e, ast.Call):
         t = au.call_tail(e)
         if t in ("fliplr",) and len(e.args) == 1:
@@ -543,6 +676,9 @@ def _layout(e):
         if t in ("flatten", "ravel") and isinstance(e.func, ast.Attribute) and not e.args:
             base = _layout(e.func.value)
             return ("inter",) + base[1] if base and base[0] == "cols" else None
+        if t == "ravel" and len(e.args) == 1:
+            base = _layout(e.args[0])
+            return ("inter",) + base[1] if base and base[0] == "cols" else None
         if t == "reshape" and isinstance(e.func, ast.Attribute) and len(e.args) == 1 and au.const(e.args[0]) == -1:
             base = _layout(e.func.value)
             return ("inter",) + base[1] if base and base[0] == "cols" else None
@@ -552,11 +688,13 @@ def _layout(e):
                 return ("block", parts[0][1], parts[1][1])
         if t in ("astype", "copy") and isinstance(e.func, ast.Attribute):
             return _layout(e.func.value)
+        if t in ("array", "asarray") and len(e.args) >= 1:
+            return _layout(e.args[0])
     return None
 
 
 def _value_layout(e):
-    """'inter' for np.repeat(w, 2), 'block' for np.tile(w, 2) / concatenate((w, w))"""
+    """'inter' for np.repeat(w, 2), 'block' for np.tile(w, 2) / concatenate((w, w)), 'const' for np.ones / np.full"""
     if isinstance(e, ast.Call):
         t = au.call_tail(e)
         if t == "repeat" and len(e.args) == 2 and au.const(e.args[1]) == 2:
@@ -566,44 +704,120 @@ def _value_layout(e):
         if t in ("concatenate", "hstack") and e.args and isinstance(e.args[0], (ast.Tuple, ast.List)) and len(e.args[0].elts) == 2 \
                 and au.same(e.args[0].elts[0], e.args[0].elts[1]):
             return "block", e.args[0].elts[0]
+        if t in ("ones", "full", "ones_like"):
+            return "const", e
     return None
 
 
-def _adjacency_vectorised(ctx, fn, site, b, arrays, ctor, do_rc=True, do_vals=True):
+def _strided(V, b, arr):
+    """layout of an array filled by `arr[0::2] = <column>` and `arr[1::2] = <column>`"""
+    got = {}
+    for s in au.stmts(V.body):
+        if not isinstance(s, ast.Assign) or len(s.targets) != 1:
+            continue
+        t, v = s.targets[0], s.value
+        pairs = list(zip(t.elts, v.elts)) if isinstance(t, ast.Tuple) and isinstance(v, ast.Tuple) and len(t.elts) == len(v.elts) else [(t, v)]
+        for tt, vv in pairs:
+            if isinstance(tt, ast.Subscript) and isinstance(tt.value, ast.Name) and tt.value.id == arr and isinstance(tt.slice, ast.Slice) \
+                    and au.const(tt.slice.step) == 2 and tt.slice.upper is None:
+                lo = 0 if tt.slice.lower is None else au.const(tt.slice.lower)
+                lay = _layout(b.resolve(vv, at=s))
+                if lo in (0, 1) and lay and lay[0] == "col":
+                    if lo in got:
+                        return None
+                    got[lo] = lay[1]
+                else:
+                    return None
+    if set(got) == {0, 1}:
+        return ("inter", got[0], got[1])
+    return None
+
+
+def element_loop(F, loop, container):
+    """(index name, set of texts naming the row of the current element) when `loop` runs over all the elements of mesh.<container> in any
+    spelling (enumerate(mesh.K), for i in mesh.id_K / range(len(mesh.K)) with row = mesh.K[i], for row in mesh.K); None otherwise"""
+    if not isinstance(loop, ast.For):
+        return None
+    L = he_seq.LoopCtx(F, loop.target, loop.iter, loop)
+    if L.seq is None or L.seq.base is None or not he_seq.full(L.seq):
+        return None
+    tail = L.seq.base.split(".")[-1]
+    if tail not in (container, "id_" + container):
+        return None
+    idx = next((nm for nm, d in L.names.items() if (d[0] == "idx" and d[2].is_zero()) or (d[0] == "at" and d[1].endswith(".id_" + container) and d[2] == 0)), None)
+    rows = {nm for nm, d in L.names.items() if d[0] == "at" and d[1].endswith("." + container) and d[2] == 0 and not d[3]}
+    if idx is not None:
+        for s in au.stmts(loop.body):
+            for nm, v in sym.split_assign(s):
+                if isinstance(v, ast.Subscript) and au.chain(v.value) and au.chain(v.value)[-1] == container and au.src(v.slice) == idx:
+                    rows.add(nm)
+                    rows.add(au.src(v))
+        prefix = L.seq.base.rsplit(".", 1)[0]
+        rows.add(f"{prefix}.{container}[{idx}]")
+    return idx, rows
+
+
+def _adjacency_layouts(ctx, fn, V, site, F, arrays, ctor):
+    """layout of rows / cols / values of adjacency_matrix, read from per-edge loops or from vectorised expressions"""
     d, r, c = arrays
-    at = ctor
-    lr, lc = _layout(b.resolve(ast.Name(id=r, ctx=ast.Load()), at=at)), _layout(b.resolve(ast.Name(id=c, ctx=ast.Load()), at=at))
-    vl = _value_layout(b.resolve(ast.Name(id=d, ctx=ast.Load()), at=at))
-    if not do_rc:
-        lr = lc = ("inter", 0, 1)      # per-slot stores 2*e, 2*e+1 (checked by the store based rule) are the interleaved layout
-    if not do_vals:
-        vl = ("inter", None)
-    if lr is None or lc is None or vl is None:
-        what = [n for n, l in ((r, lr), (c, lc), (d, vl)) if l is None]
-        ctx.fail("C08-S3", site, f"adjacency_matrix: neither per-edge stores at slots 2*e, 2*e+1 nor a recognised vectorised layout found for {', '.join(what)}",
-                 "the two entries (a,b) and (b,a) of every edge and their common weight can no longer be related")
-        return
-    ok = lr[0] == lc[0] and lr[0] in ("inter", "block") and lr[1:] == lc[1:][::-1] and lr[1] != lr[2]
-    if do_rc:
-      ctx.check(ok, "C08-S3", site, f"adjacency_matrix: rows are laid out as {lr} and cols as {lc}: expected the same layout with the two endpoint columns swapped",
-              "M[i,j] = M[j,i] = w for every edge (i,j): both transposed positions must be written", note=f"rows {lr} / cols {lc}")
-    ctx.check(vl[0] == lr[0], "C08-S3", site, f"adjacency_matrix: values are laid out per edge as `{vl[0]}` but rows / cols as `{lr[0]}`",
-              "the two entries of an edge must carry that edge's weight", note=f"values follow the {lr[0]} layout: both entries of an edge share its weight")
+    b = F.b
+    und, bad = [], []
+    lay = {}
+    # ---- per-edge loop stores  arr[2*e + k] = endpoint
+    loop_stores = {d: [], r: [], c: []}
+    for s in au.stmts(V.body):
+        if isinstance(s, ast.Assign) and len(s.targets) == 1:
+            t, v = s.targets[0], s.value
+            pairs = list(zip(t.elts, v.elts)) if isinstance(t, ast.Tuple) and isinstance(v, ast.Tuple) and len(t.elts) == len(v.elts) else [(t, v)]
+            for tt, vv in pairs:
+                if isinstance(tt, ast.Subscript) and isinstance(tt.value, ast.Name) and tt.value.id in loop_stores and not isinstance(tt.slice, ast.Slice):
+                    lp = next((a for a in au.ancestors(s) if isinstance(a, ast.For)), None)
+                    loop_stores[tt.value.id].append((s, tt, vv, lp))
+    for arr in (r, c):
+        if loop_stores[arr]:
+            slots = {}
+            for s, tt, vv, lp in loop_stores[arr]:
+                el = _edge_loop(F, lp) if lp is not None else None
+                sl = _slot(b.resolve(tt.slice, at=s, keep=(el[0],)), el[0]) if el else None
+                if not el or sl is None or au.guards(s, stop=lp):
+                    und.append(f"a store into `{arr}` is not read as an unconditional store at slot 2*e+k of a loop over the edges")
+                    continue
+                val = b.resolve(vv, at=s, keep=tuple(el[1]))
+                end = el[1].index(val.id) if isinstance(val, ast.Name) and val.id in el[1] else None
+                if end is None:
+                    und.append(f"the value stored into `{arr}` is not an endpoint of the edge")
+                    continue
+                if sl in slots:
+                    bad.append(f"slot {sl[0]}*e+{sl[1]} of {arr} is stored twice")
+                slots[sl] = end
+            if not und and not bad:
+                if sorted(slots) == [(2, 0), (2, 1)]:
+                    lay[arr] = ("inter", slots[(2, 0)], slots[(2, 1)])
+                else:
+                    bad.append(f"`{arr}` is stored at slots {sorted(slots)} of the edge loop: expected 2*e and 2*e+1")
+        else:
+            l = _layout(b.resolve(ast.Name(id=arr, ctx=ast.Load()), at=ctor)) or _strided(V, b, arr)
+            if l is None or l[0] not in ("inter", "block"):
+                und.append(f"neither per-edge stores at slots 2*e, 2*e+1 nor a recognised vectorised layout found for `{arr}`")
+            else:
+                lay[arr] = l
+    return lay, und, bad, loop_stores
 
 
-def _weights_lookup(ctx, fn, site):
+def _weights_lookup(ctx, fn, V, site):
     """custom weights are a dict edge id -> weight: every data read must be a lookup by the id of an edge"""
     if "weights" not in au.params(fn):
-        ctx.fail("C08-S3", site, "adjacency_matrix: the `weights` option not found", "")
+        ctx.undecided("C08-S3", site, "adjacency_matrix: the `weights` option not found", "")
         return
     m = ctx.repo.module(ADJ)
-    K = H.Kinds(ctx.repo, m.name, fn, H.make_attr_func_kind(ctx.repo, m.name))
+    K = H.Kinds(ctx.repo, m.name, V, H.make_attr_func_kind(ctx.repo, m.name))
     keyed = 0
-    for n in au.walk(fn):
+    for n in au.walk(V):
         if not (isinstance(n, ast.Name) and n.id == "weights" and isinstance(n.ctx, ast.Load)):
             continue
         par = au.parent(n)
-        if isinstance(par, ast.Compare) or (isinstance(par, ast.Call) and au.call_tail(par) == "isinstance"):
+        if isinstance(par, ast.Compare) or (isinstance(par, ast.Call) and au.call_tail(par) in ("isinstance", "type", "len", "str", "repr", "format")) \
+                or isinstance(par, (ast.FormattedValue, ast.JoinedStr)):
             continue
         idx = None
         if isinstance(par, ast.Subscript) and par.value is n:
@@ -613,229 +827,395 @@ def _weights_lookup(ctx, fn, site):
         if idx is not None:
             k = K.kind(idx, K._scope_of(par))
             keyed += 1
-            ctx.check(k == "edges", "C08-S3", ctx.site(ADJ, fn, par),
-                      f"adjacency_matrix: custom weight `{au.src(par)}` is looked up with `{au.src(idx)}`, which is not known to be the id of an edge"
-                      + (f" (it is an id of {k})" if isinstance(k, str) else ""),
-                      "weights is a dict edge_id -> weight", note="custom weight looked up by edge id")
-        else:
+            if k == "edges":
+                ctx.ok("C08-S3", ctx.site(ADJ, fn, par), "custom weight looked up by edge id")
+            elif isinstance(k, str):
+                ctx.fail("C08-S3", ctx.site(ADJ, fn, par), f"adjacency_matrix: a custom weight is looked up with an id of {k}, not with the id of an edge",
+                         "weights is a dict edge_id -> weight")
+            else:
+                ctx.undecided("C08-S3", ctx.site(ADJ, fn, par), "adjacency_matrix: the key of a custom weight lookup is not known to be the id of an edge", "")
+        elif isinstance(par, ast.Attribute) and par.attr in ("items", "keys"):
+            keyed += 1
+            ctx.undecided("C08-S3", ctx.site(ADJ, fn, n), "adjacency_matrix: custom weights are iterated with their keys; the pairing of each weight with its edge is not followed", "")
+        elif isinstance(par, ast.Attribute) and par.attr in ("values",) or (isinstance(par, ast.Call) and au.call_tail(par) in ("list", "tuple", "fromiter", "array", "asarray", "sorted")) \
+                or isinstance(par, (ast.For, ast.comprehension)):
             use = au.src(au.parent(par)) if isinstance(par, ast.Attribute) else au.src(par)
             ctx.fail("C08-S3", ctx.site(ADJ, fn, n), f"adjacency_matrix: custom weights are read through `{use[:80]}` instead of a lookup `weights[e]` by the id of the edge being emitted",
                      "weights is a dict edge_id -> weight: taking its values in iteration (insertion) order attaches them to the wrong edges as soon as the "
                      "dict was not filled in increasing edge order")
+            keyed += 1
+        # other uses (passed on to a helper ...): not decided here
     if keyed == 0:
-        ctx.fail("C08-S3", site, "adjacency_matrix: lookup `weights[e]` of the custom weight of an edge not found",
-                 "the custom dict option must read the weight of each edge under that edge's id")
+        ctx.undecided("C08-S3", site, "adjacency_matrix: lookup `weights[e]` of the custom weight of an edge not recognised",
+                      "the custom dict option must read the weight of each edge under that edge's id")
 
 
 def s3_adjacency(ctx):
     fn = ctx.repo.func(ADJ, "adjacency_matrix")
+    m = ctx.repo.module(ADJ)
     site = ctx.site(ADJ, fn)
-    b = sym.Bindings(fn)
-    arrays, ctor = H.coo_arrays(fn)
-    _weights_lookup(ctx, fn, site)
+    V = H.fview(ctx, ADJ, fn)
+    F = he_seq.Forms(V, ctx.repo, m.name)
+    b = F.b
+    arrays, ctor = H.coo_arrays(V)
+    _weights_lookup(ctx, fn, V, site)
     if not arrays:
-        ctx.fail("C08-S3", site, "adjacency_matrix: sparse constructor `coo_matrix((vals, (rows, cols)))` not found", "")
+        ctx.undecided("C08-S3", site, "adjacency_matrix: sparse constructor `coo_matrix((vals, (rows, cols)))` not recognised", "")
     else:
-        def stored(names):
-            return any(isinstance(s, ast.Assign) and len(s.targets) == 1 and isinstance(s.targets[0], ast.Subscript)
-                       and isinstance(s.targets[0].value, ast.Name) and s.targets[0].value.id in names for s in au.stmts(fn.body))
-        rc_loop, val_loop = stored(arrays[1:]), stored(arrays[:1])
-        ones = any(isinstance(v, ast.Call) and au.call_tail(v) in ("ones", "full") for s in au.stmts(fn.body) for nm, v in sym.split_assign(s) if nm == arrays[0])
-        val_loop = val_loop or (ones and rc_loop)
-        if rc_loop or val_loop:
-            _adjacency_looped(ctx, fn, site, b, arrays, do_rc=rc_loop, do_vals=val_loop)
-        if not (rc_loop and val_loop):
-            _adjacency_vectorised(ctx, fn, site, b, arrays, ctor, do_rc=not rc_loop, do_vals=not val_loop)
+        d, r, c = arrays
+        lay, und, bad, loop_stores = _adjacency_layouts(ctx, fn, V, site, F, arrays, ctor)
+        if r in lay and c in lay and not bad:
+            lr, lc = lay[r], lay[c]
+            if not (lr[0] == lc[0] and lr[1:] == lc[1:][::-1] and lr[1] != lr[2]):
+                bad.append(f"rows are laid out as {lr} and cols as {lc}: expected the same layout with the two endpoint columns swapped")
+        # values
+        kinds = set()
+        if loop_stores[d]:
+            # per-edge stores: the two slots of an edge receive the same weight in every branch
+            groups = {}
+            for s, tt, vv, lp in loop_stores[d]:
+                groups.setdefault(id(lp), []).append((s, tt, vv, lp))
+            for g in groups.values():
+                lp = g[0][3]
+                el = _edge_loop(F, lp) if lp is not None else None
+                sl = {}
+                for s, tt, vv, _ in g:
+                    k = _slot(b.resolve(tt.slice, at=s, keep=(el[0],)), el[0]) if el else None
+                    if k is None or au.guards(s, stop=lp):
+                        und.append("a store of a weight is not read as an unconditional store at slot 2*e+k of a loop over the edges")
+                    else:
+                        sl[k] = au.norm(b.resolve(vv, at=s, keep=(el[0],)))
+                if not und:
+                    if sorted(sl) != [(2, 0), (2, 1)]:
+                        bad.append(f"weights are stored at slots {sorted(sl)} of the edge loop: expected 2*e and 2*e+1")
+                    elif sl[(2, 0)] != sl[(2, 1)]:
+                        bad.append("the two entries of an edge receive different weights")
+            kinds.add("inter")
+        # whole-array bindings of the value array (vectorised branches / constant weights)
+        for s in au.stmts(V.body):
+            for nm, v in sym.split_assign(s):
+                if nm != d:
+                    continue
+                vl = _value_layout(b.resolve(v, at=s))
+                if vl is not None:
+                    if vl[0] != "const":
+                        kinds.add(vl[0])
+                elif isinstance(v, ast.Call) and au.call_tail(v) in ("zeros", "empty", "zeros_like"):
+                    pass           # allocation, filled by stores
+                else:
+                    und.append(f"a binding of `{d}` is not read as a per-edge weight duplicated for the two entries of the edge")
+        if r in lay and not bad and not und:
+            wrong = [k for k in kinds if k != lay[r][0]]
+            if wrong:
+                bad.append(f"values are laid out per edge as `{wrong[0]}` but rows / cols as `{lay[r][0]}`")
+        if bad:
+            ctx.fail("C08-S3", site, "adjacency_matrix: " + "; ".join(dict.fromkeys(bad)),
+                     "M[i,j] = M[j,i] = w for every edge (i,j): both transposed positions must be written and carry that edge's weight")
+        elif und:
+            ctx.undecided("C08-S3", site, "adjacency_matrix: " + "; ".join(dict.fromkeys(und)),
+                          "the two entries (a,b) and (b,a) of every edge and their common weight could not be related")
+        else:
+            ctx.ok("C08-S3", site, f"adjacency_matrix: rows {lay[r]} / cols {lay[c]}, both entries of an edge share its weight")
     # vertex_to_edge_operator
     fn = ctx.repo.func(ADJ, "vertex_to_edge_operator")
     site = ctx.site(ADJ, fn)
-    b = sym.Bindings(fn)
-    st = H.Stencil(fn)
-    us = units(st, fn.body)
-    ok, why = False, "assembly loop over the edges not found"
+    V = H.fview(ctx, ADJ, fn)
+    F = he_seq.Forms(V, ctx.repo, m.name)
+    b = F.b
+    st = ST.Stencil(V)
+    us = ST.units(st, V.body)
+    ok, why = None, ""
     if len(us) == 1:
         loop, paths = us[0]
-        el = _edge_loop(loop)
-        emits = H.flat_emits(paths[0][1]) if len(paths) == 1 else []
-        if el and len(el[1]) == 2 and len(emits) == 2 and not paths[0][0]:
+        el = _edge_loop(F, loop)
+        paths = [p for p in paths if p.entries]
+        if el and len(el[1]) == 2 and len(paths) == 1 and not paths[0].conds and not paths[0].unclear:
+            emits = paths[0].entries
             by_row = {au.src(e.row): e for e in emits}
-            why = f"entries {emits}"
-            if set(by_row) == set(el[1]) and all(au.src(e.col) == el[0] for e in emits):
+            if len(emits) == 2 and set(by_row) == set(el[1]) and all(au.src(e.col) == el[0] for e in emits):
                 orig = b.resolve(by_row[el[1][0]].val, at=by_row[el[1][0]].node)
                 dest = b.resolve(by_row[el[1][1]].val, at=by_row[el[1][1]].node)
-                ok = au.const(dest) == 1 and isinstance(orig, ast.IfExp) and isinstance(orig.test, ast.Name) and orig.test.id == "oriented" \
-                    and au.const(orig.body) == -1 and au.const(orig.orelse) == 1
-                why = f"origin coefficient `{au.src(orig)}`, arrival coefficient `{au.src(dest)}`"
-    ctx.check(ok, "C08-S3", site, f"vertex_to_edge_operator: not one entry per endpoint in column e with origin -1 iff oriented ({why})",
-              "M[v,e] = 1 for both ends, and -1 at the origin (first vertex of the edge) when oriented", note="one entry per endpoint; origin -1 iff oriented")
+                if isinstance(orig, ast.IfExp):
+                    t, pol = au.strip_not(orig.test)
+                    neg, pos = (orig.body, orig.orelse) if pol else (orig.orelse, orig.body)
+                    if isinstance(t, ast.Name) and t.id == "oriented":
+                        ok = au.const(dest) == 1 and au.const(neg) == -1 and au.const(pos) == 1
+                        why = f"origin coefficient `{au.src(orig)}`, arrival coefficient `{au.src(dest)}`"
+                elif isinstance(dest, ast.IfExp) and au.const(orig) is not None:
+                    ok, why = False, "the coefficient depending on `oriented` is given to the arrival vertex, the origin gets a constant"
+                elif au.const(orig) is not None and au.const(dest) is not None:
+                    ok, why = False, f"origin coefficient {au.src(orig)} does not depend on `oriented`"
+            elif len(emits) == 2 and all(au.src(e.col) == el[0] for e in emits) and set(by_row) <= set(el[1]):
+                ok, why = False, f"the two entries of an edge are stored in the row(s) {sorted(by_row)}, not one per endpoint"
+            elif len(emits) != 2:
+                ok, why = False, f"{len(emits)} entries per edge"
+            elif not all(au.src(e.col) == el[0] for e in emits):
+                ok, why = False, "an entry is not stored in the column of the edge"
+    if ok is None:
+        ctx.undecided("C08-S3", site, "vertex_to_edge_operator: assembly of one entry per endpoint of every edge not recognised", "")
+    else:
+        ctx.check(ok, "C08-S3", site, f"vertex_to_edge_operator: not one entry per endpoint in column e with origin -1 iff oriented ({why})",
+                  "M[v,e] = 1 for both ends, and -1 at the origin (first vertex of the edge) when oriented", note="one entry per endpoint; origin -1 iff oriented")
     # vertex_to_face_operator
     fn = ctx.repo.func(ADJ, "vertex_to_face_operator")
     site = ctx.site(ADJ, fn)
-    b = sym.Bindings(fn)
-    st = H.Stencil(fn)
-    ok, why = False, "assembly loop `for iT,T in enumerate(mesh.faces): for V in T` not found"
-    for loop in [s for s in au.stmts(fn.body) if isinstance(s, ast.For)]:
-        paths = st.paths(loop.body)
-        emits = [e for _, it in paths for e in H.flat_emits(it)]
-        if not emits:
+    V = H.fview(ctx, ADJ, fn)
+    F = he_seq.Forms(V, ctx.repo, m.name)
+    b = F.b
+    st = ST.Stencil(V)
+    ok, why = None, ""
+    for loop in [s for s in au.stmts(V.body) if isinstance(s, ast.For)]:
+        paths = [p for p in st.paths(loop.body) if p.entries]
+        if not paths:
             continue
         outer = [a for a in au.ancestors(loop) if isinstance(a, ast.For)]
-        if len(emits) == 1 and len(paths) == 1 and not paths[0][0] and outer and isinstance(outer[0].target, ast.Tuple) \
-                and len(outer[0].target.elts) == 2 and all(isinstance(x, ast.Name) for x in outer[0].target.elts) \
-                and isinstance(outer[0].iter, ast.Call) and au.call_tail(outer[0].iter) == "enumerate" and not au.guards(loop, stop=outer[0]):
-            e = emits[0]
-            fi, row = (x.id for x in outer[0].target.elts)
-            v = b.resolve(e.val, at=e.node, keep=(row,))
-            coef, num, den = H.factors(v)
-            val_ok = coef == 1 and not num and len(den) == 1 and au.src(den[0]) == f"len({row})"
-            ok = val_ok and au.src(loop.iter) == row and isinstance(loop.target, ast.Name) and au.src(e.col) == loop.target.id and au.src(e.row) == fi
-            why = f"entry ({au.src(e.row)}, {au.src(e.col)}) = {au.src(v)} for {au.src(loop.target)} in {au.src(loop.iter)}"
-    ctx.check(ok, "C08-S3", site, f"vertex_to_face_operator: not one entry 1/len(T) per vertex of every face ({why})",
-              "averaging operator: each row sums to one and has one entry per incidence", note="1/len(T) per incidence")
+        if len(paths) != 1 or paths[0].conds or paths[0].unclear or len(paths[0].entries) != 1 or not outer or au.guards(loop, stop=outer[0]):
+            continue
+        el = element_loop(F, outer[-1], "faces")
+        if el is None or el[0] is None or not el[1]:
+            continue
+        fi, rows_ = el
+        e = paths[0].entries[0]
+        v = b.resolve(e.val, at=e.node, keep=tuple(r for r in rows_ if r.isidentifier()))
+        coef, num, den = H.factors(v)
+        val_ok = coef == 1 and not num and len(den) == 1 and isinstance(den[0], ast.Call) and au.call_tail(den[0]) == "len" and len(den[0].args) == 1 \
+            and (au.src(den[0].args[0]) in rows_ or F.key(den[0].args[0], e.node) in rows_)
+        over_row = (F.key(loop.iter, loop) in rows_ or au.src(loop.iter) in rows_) and isinstance(loop.target, ast.Name)
+        if not over_row:
+            continue
+        ok = val_ok and au.src(e.col) == loop.target.id and au.src(e.row) == fi
+        why = f"entry ({au.src(e.row)}, {au.src(e.col)}) = {au.src(v)} for every vertex of a face"
+    if ok is None:
+        ctx.undecided("C08-S3", site, "vertex_to_face_operator: assembly of one entry per (face, vertex of the face) not recognised", "")
+    else:
+        ctx.check(ok, "C08-S3", site, f"vertex_to_face_operator: not one entry 1/len(T) per vertex of every face ({why})",
+                  "averaging operator: each row sums to one and has one entry per incidence", note="1/len(T) per incidence")
 
 
 # ----------------------------------------------------------------------- C08-S4
-def _gradient_branch(ctx, fn, loop, st, b, kinds):
-    """-> dict vertex -> {'re': Poly, 'im': Poly}, coords vertex -> (x, y), problems, slots"""
-    problems = []
-    if not (isinstance(loop.target, ast.Tuple) and len(loop.target.elts) == 2 and isinstance(loop.target.elts[0], ast.Name)
-            and isinstance(loop.target.elts[1], (ast.Tuple, ast.List)) and len(loop.target.elts[1].elts) == 3
-            and all(isinstance(x, ast.Name) for x in loop.target.elts[1].elts)):
-        return None, None, ["loop is not `for iT,(A,B,C) in enumerate(mesh.faces)`"], []
-    fi = loop.target.elts[0].id
-    verts = [x.id for x in loop.target.elts[1].elts]
-    coords = {}
-    for s in loop.body:
-        if isinstance(s, ast.Assign) and isinstance(s.targets[0], ast.Tuple) and len(s.targets[0].elts) == 2 \
-                and isinstance(s.value, ast.Call) and au.call_tail(s.value) == "project" and len(s.value.args) == 2:
-            p = s.value.args[0]
-            if isinstance(p, ast.Subscript) and au.chain(p.value) and au.chain(p.value)[-1] == "vertices" and isinstance(p.slice, ast.Name) \
-                    and au.src(s.value.args[1]) == fi and all(isinstance(t, ast.Name) for t in s.targets[0].elts):
-                coords[p.slice.id] = tuple(t.id for t in s.targets[0].elts)
-    if set(coords) != set(verts):
-        problems.append(f"local coordinates are projected for {sorted(coords)} instead of the three vertices {verts} in the basis of face {fi}")
-    emits = [e for s in loop.body for e in st.emits_of(s)]
-    out = {}
-    slots = []
-    for e in emits:
-        v = b.resolve(e.val, at=e.node, keep=tuple(x for xy in coords.values() for x in xy) + (fi,))
-        coef, num, den = H.factors(v)
-        # value = numerator / (2 * area[face]); after resolution the 2 sits in the rational coefficient
-        den_ok = len(den) == 1 and isinstance(den[0], ast.Subscript) and isinstance(den[0].value, ast.Name) \
-            and au.src(den[0].slice) == fi and kinds.kind(den[0].value) == ("idx", "faces")
-        if not den_ok:
-            problems.append(f"`{au.src(e.val)}` is not divided by (a multiple of) the area of face {fi}")
-        coef = coef * 2
-        col = au.src(e.col)
-        if col not in verts:
-            problems.append(f"column `{col}` is not a vertex of the face")
+GEOM_CALLS = {"norm", "distance", "hypot"}
+
+
+def _gradient_path(ctx, fn, V, F, loop, path, kinds):
+    """-> (per-vertex {'re': Poly, 'im': Poly}, coords, verts, fi), problems (contradictions), unclear (unread shapes)"""
+    b = F.b
+    bad, und = [], []
+    LF = he_seq.LoopCtx(F, loop.target, loop.iter, loop)
+    fi = next((nm for nm, d in LF.names.items() if d[0] == "idx" and d[2].is_zero()), None)
+    verts = next((r for r in LF.rows.values() if None not in r), None)
+    if LF.seq is None or not (LF.seq.base or "").endswith(".faces") or fi is None or not verts or len(verts) != 3:
+        return None, [], ["the loop over (face index, (A, B, C)) of the triangles not recognised"]
+    # local coordinates: components of conn.project(<position of a vertex> [- <position of an origin vertex>], face)
+    coords, origin = {}, set()
+
+    def pairs_of(t, v):
+        """(pair of names, call) for  (x, y) = f(..)  also inside  (xA, yA), (xB, yB) = f(A), f(B)  /  ... = (f(v) for v in (A, B))"""
+        if isinstance(t, (ast.Tuple, ast.List)) and len(t.elts) == 2 and all(isinstance(x, ast.Name) for x in t.elts) and isinstance(v, ast.Call):
+            yield tuple(x.id for x in t.elts), v
+        elif isinstance(t, (ast.Tuple, ast.List)) and isinstance(v, (ast.Tuple, ast.List)) and len(t.elts) == len(v.elts):
+            for a, c in zip(t.elts, v.elts):
+                yield from pairs_of(a, c)
+        elif isinstance(t, (ast.Tuple, ast.List)) and isinstance(v, (ast.GeneratorExp, ast.ListComp)) and len(v.generators) == 1 and not v.generators[0].ifs \
+                and isinstance(v.generators[0].target, ast.Name):
+            items = he_norm.lit_items(v.generators[0].iter)
+            if items is not None and len(items) == len(t.elts):
+                for a, it in zip(t.elts, items):
+                    yield from pairs_of(a, sym.subst(v.elt, {v.generators[0].target.id: it}))
+    for s in au.stmts(loop.body):
+        if not (isinstance(s, ast.Assign) and len(s.targets) == 1):
             continue
-        rowp = sym.to_poly(e.row)
-        slots.append(e.slot)
+        for names, call in pairs_of(s.targets[0], s.value):
+            if not (au.call_tail(call) == "project" and len(call.args) == 2):
+                continue
+            p = b.resolve(call.args[0], at=s, keep=tuple(verts) + (fi,))
+            face = b.resolve(call.args[1], at=s, keep=(fi,))
+            v = he_seq.vertex_index(p)
+            rel = None
+            if v is None and isinstance(p, ast.BinOp) and isinstance(p.op, ast.Sub):
+                v, rel = he_seq.vertex_index(p.left), he_seq.vertex_index(p.right)
+            if isinstance(v, ast.Name) and v.id in verts and au.src(face) == fi and (rel is None or (isinstance(rel, ast.Name) and rel.id in verts)):
+                if v.id in coords and coords[v.id] != names:
+                    bad.append(f"the position of vertex {v.id} is projected into two different pairs of local coordinates (another vertex of the face is never projected)")
+                coords[v.id] = names
+                if rel is not None:
+                    origin.add(rel.id)
+            elif isinstance(v, ast.Name) and v.id in verts and au.src(face) != fi:
+                bad.append(f"the coordinates of vertex {v.id} are projected in the basis of `{au.src(face)}`, not of the face being assembled")
+    if len(origin) > 1:
+        und.append("local coordinates are taken relative to several origins")
+    missing = [v for v in verts if v not in coords and v not in origin]
+    cname = {n: (v, k) for v, ns in coords.items() for k, n in enumerate(ns)}
+    out = {}
+
+    def cpoly(e):
+        def atom(x):
+            if isinstance(x, ast.Name) and x.id in cname:
+                return x.id
+            return None
+        return sym.to_poly(e, atom_of=atom, opaque=True)
+    for e in path.entries:
+        v = b.resolve(e.val, at=e.node, keep=tuple(cname) + (fi,))
+        coef, num, den = H.factors(v)
+        den_ok = len(den) == 1 and isinstance(den[0], ast.Subscript) and isinstance(den[0].value, ast.Name) \
+            and au.src(b.resolve(den[0].slice, at=e.node, keep=(fi,))) == fi and kinds.kind(den[0].value) == ("idx", "faces")
+        if not den_ok:
+            clamp = [x for x in den if isinstance(x, ast.Call) and au.call_tail(x) in ("max", "maximum", "min", "minimum", "clip")
+                     and any(isinstance(a, ast.Constant) or (isinstance(a, ast.Name) and a.id.isupper()) or (isinstance(a, ast.Name) and a.id.startswith("_")) for a in x.args)]
+            if clamp:
+                bad.append(f"the coefficient is divided by `{au.src(clamp[0])}`: the doubled face area is clamped by an absolute constant")
+            else:
+                und.append("a coefficient is not read as numerator / (2 * area of the face)")
+            continue
+        coef = coef * 2
+        col = au.src(b.resolve(e.col, at=e.node, keep=tuple(verts)))
+        if col not in verts:
+            und.append(f"a column index is not read as a vertex of the face")
+            continue
+        try:
+            rowp = sym.to_poly(b.resolve(e.row, at=e.node, keep=(fi,)), opaque=False)
+        except sym.NotPoly:
+            und.append("a row index is not affine in the face index")
+            continue
         if len(num) == 1 and isinstance(num[0], ast.Call) and au.call_tail(num[0]) == "complex" and len(num[0].args) == 2:
             if not (rowp == Poly.atom(fi)):
-                problems.append(f"complex entry of {col} is stored in row {au.src(e.row)}, not {fi}")
-            out.setdefault(col, {})["re"] = sym.to_poly(num[0].args[0]).scale(coef)
-            out.setdefault(col, {})["im"] = sym.to_poly(num[0].args[1]).scale(coef)
+                bad.append(f"the complex entry of vertex {col} is stored in row {rowp}, not in the row of the face")
+            out.setdefault(col, {})["re"] = cpoly(num[0].args[0]).scale(coef)
+            out.setdefault(col, {})["im"] = cpoly(num[0].args[1]).scale(coef)
         else:
-            part = None
-            if rowp == Poly.atom(fi).scale(2):
-                part = "re"
-            elif rowp == Poly.atom(fi).scale(2) + 1:
-                part = "im"
+            part = "re" if rowp == Poly.atom(fi).scale(2) else "im" if rowp == Poly.atom(fi).scale(2) + 1 else None
             if part is None:
-                problems.append(f"real entry of {col} is stored in row {au.src(e.row)} (expected 2*{fi} for the x part, 2*{fi}+1 for the y part)")
+                bad.append(f"a real entry of vertex {col} is stored in row {rowp} (expected 2*face for the x part, 2*face+1 for the y part)")
                 continue
             if part in out.get(col, {}):
-                problems.append(f"two entries for the {part} part of vertex {col}")
-            numer = ast.Constant(value=1)
+                bad.append(f"two entries for the {'x' if part == 're' else 'y'} part of vertex {col}")
             p = Poly.const(coef)
             for x in num:
-                p = p * sym.to_poly(x)
+                p = p * cpoly(x)
             out.setdefault(col, {})[part] = p
-    return out, coords, problems, (fi, verts, emits)
+    # every atom of the coefficients must be a projected coordinate
+    for v, parts in out.items():
+        for p in parts.values():
+            for a in p.atoms():
+                if a in cname:
+                    continue
+                if a.startswith("⟨") and any(a[1:].startswith(g + "(") or ("." + g + "(") in a for g in GEOM_CALLS):
+                    bad.append(f"a local coordinate entering the coefficients is computed as `{a[1:-1][:60]}`, not as a projection in the basis of the connection")
+                else:
+                    und.append("a coefficient depends on a quantity that is not a projected coordinate of a vertex of the face")
+    if missing and not bad:
+        und.append(f"local coordinates of {missing} not found as conn.project(position, face)")
+    return (out, coords, verts, fi, origin), list(dict.fromkeys(bad)), list(dict.fromkeys(und))
 
 
 def s4_gradient(ctx):
     fn = ctx.repo.func(GRAD, "gradient")
     site = ctx.site(GRAD, fn)
-    b = sym.Bindings(fn)
-    st = H.Stencil(fn)
-    loops = [s for s in au.stmts(fn.body) if isinstance(s, ast.For) and any(st.emits_of(x) for x in s.body)]
-    st.problems = []
+    V = H.fview(ctx, GRAD, fn)
     mod = ctx.repo.module(GRAD)
-    kinds = H.Kinds(ctx.repo, mod.name, fn, H.make_attr_func_kind(ctx.repo, mod.name))
-    if len(loops) != 2:
-        ctx.fail("C08-S4", site, f"gradient: {len(loops)} assembly loop(s) found instead of the complex / real pair", "")
+    F = he_seq.Forms(V, ctx.repo, mod.name)
+    st = ST.Stencil(V)
+    kinds = H.Kinds(ctx.repo, mod.name, V, H.make_attr_func_kind(ctx.repo, mod.name))
+    us = ST.units(st, V.body)
+    res = {}
+    for loop, paths in us:
+        for path in paths:
+            if not path.entries:
+                continue
+            cplx = any(isinstance(n, ast.Call) and au.call_tail(n) == "complex" for e in path.entries for n in ast.walk(e.val))
+            label = "complex" if cplx else "real"
+            lsite = ctx.site(GRAD, fn, path.entries[0].node)
+            for node, msg in path.problems:
+                ctx.fail("C08-N1", ctx.site(GRAD, fn, node), f"gradient: {msg}", "two entries stored at one slot lose a coefficient")
+            if path.unclear:
+                ctx.undecided("C08-S4", lsite, f"gradient[{label}]: stores could not be grouped into entries ({path.unclear[0][1]})", "")
+                continue
+            info, bad, und = _gradient_path(ctx, fn, V, F, loop, path, kinds)
+            if bad:
+                ctx.fail("C08-S4", lsite, f"gradient[{label}]: " + "; ".join(bad), "the gradient of an affine function must be its constant gradient in the face basis of the connection")
+                continue
+            if und or info is None:
+                ctx.undecided("C08-S4", lsite, f"gradient[{label}]: " + "; ".join(und or ["per-face coefficients not read"]), "")
+                continue
+            out, coords, verts, fi, origin = info
+            full = all(set(out.get(v, {})) == {"re", "im"} for v in verts)
+            if not full:
+                ctx.fail("C08-S4", lsite, f"gradient[{label}]: not every vertex of the face has an x and a y coefficient", "")
+                continue
+            zero = Poly()
+            sre = sum((out[v]["re"] for v in verts), zero)
+            sim = sum((out[v]["im"] for v in verts), zero)
+            ctx.check(sre.is_zero() and sim.is_zero(), "C08-S4", lsite,
+                      f"gradient[{label}]: the three coefficients of a face sum to ({sre}, {sim}) instead of zero",
+                      "the gradient of a constant function must vanish", note=f"{label}: coefficient sum is the zero form")
+            X = {v: (Poly.atom(coords[v][0]) if v in coords else Poly()) for v in verts}
+            Y = {v: (Poly.atom(coords[v][1]) if v in coords else Poly()) for v in verts}
+            A, B, C = verts
+            D = (X[B] - X[A]) * (Y[C] - Y[A]) - (X[C] - X[A]) * (Y[B] - Y[A])
+            gxx = sum((out[v]["re"] * X[v] for v in verts), zero)
+            gxy = sum((out[v]["im"] * X[v] for v in verts), zero)
+            gyx = sum((out[v]["re"] * Y[v] for v in verts), zero)
+            gyy = sum((out[v]["im"] * Y[v] for v in verts), zero)
+            ok = gxx == D and gyy == D and gxy.is_zero() and gyx.is_zero()
+            ctx.check(ok, "C08-S4", lsite,
+                      f"gradient[{label}]: applied to the local coordinates (x, y) the numerators give [[{gxx}, {gxy}], [{gyx}, {gyy}]] "
+                      f"instead of twice the signed area times the identity",
+                      "the gradient of an affine function must be its constant gradient: grad x = (1,0), grad y = (0,1) in the face basis",
+                      note=f"{label}: exact on affine functions")
+            res.setdefault(label, []).append((out, verts, coords))
+    if not res:
+        if not any(p.entries for _, ps in us for p in ps):
+            ctx.undecided("C08-S4", site, "gradient: assembly loop(s) of the per-face coefficients not recognised", "")
         return
-    res = []
-    for lp in loops:
-        out, coords, problems, info = _gradient_branch(ctx, fn, lp, st, b, kinds)
-        lsite = ctx.site(GRAD, fn, lp)
-        g = au.guards(lp)
-        label = "complex" if g and g[0][1] and "as_complex" in au.src(g[0][0]) else "real"
-        if out is None or problems:
-            ctx.fail("C08-S4", lsite, f"gradient[{label}]: " + "; ".join(problems), "the per-face gradient coefficients cannot be read")
-            continue
-        fi, verts, emits = info
-        full = all(set(out.get(v, {})) == {"re", "im"} for v in verts)
-        if not full:
-            ctx.fail("C08-S4", lsite, f"gradient[{label}]: not every vertex of the face has an x and a y coefficient", "")
-            continue
-        zero = Poly()
-        sre = sum((out[v]["re"] for v in verts), zero)
-        sim = sum((out[v]["im"] for v in verts), zero)
-        ctx.check(sre.is_zero() and sim.is_zero(), "C08-S4", lsite,
-                  f"gradient[{label}]: the three coefficients of a face sum to ({sre}, {sim}) instead of zero",
-                  "the gradient of a constant function must vanish", note=f"{label}: coefficient sum is the zero form")
-        # affine exactness
-        X = {v: Poly.atom(coords[v][0]) for v in verts}
-        Y = {v: Poly.atom(coords[v][1]) for v in verts}
-        A, B, C = verts
-        D = (X[B] - X[A]) * (Y[C] - Y[A]) - (X[C] - X[A]) * (Y[B] - Y[A])
-        gxx = sum((out[v]["re"] * X[v] for v in verts), zero)
-        gxy = sum((out[v]["im"] * X[v] for v in verts), zero)
-        gyx = sum((out[v]["re"] * Y[v] for v in verts), zero)
-        gyy = sum((out[v]["im"] * Y[v] for v in verts), zero)
-        ok = gxx == D and gyy == D and gxy.is_zero() and gyx.is_zero()
-        ctx.check(ok, "C08-S4", lsite,
-                  f"gradient[{label}]: applied to the local coordinates (x, y) the numerators give [[{gxx}, {gxy}], [{gyx}, {gyy}]] "
-                  f"instead of twice the signed area times the identity",
-                  "the gradient of an affine function must be its constant gradient: grad x = (1,0), grad y = (0,1) in the face basis",
-                  note=f"{label}: exact on affine functions")
-        # slots
-        sl = [_slot(e.slot, fi) for e in emits]
-        nslot = len(emits)
-        ctx.check(None not in sl and sorted(sl) == [(nslot, k) for k in range(nslot)], "C08-N1", lsite,
-                  f"gradient[{label}]: entries are stored at slots {[au.src(e.slot) for e in emits]}: expected {nslot}*{fi}+0..{nslot - 1}",
-                  "two entries stored at one slot lose a coefficient", note=f"{label}: {nslot} distinct slots per face")
-        res.append((label, out, verts))
-    for node, msg in st.problems:
-        ctx.fail("C08-N1", ctx.site(GRAD, fn, node), f"gradient: {msg}", "")
-    if len(res) == 2:
-        (l1, o1, v1), (l2, o2, v2) = res
-        same = all(o1[a]["re"] == o2[c]["re"] and o1[a]["im"] == o2[c]["im"] for a, c in zip(v1, v2))
-        # the two loops may name their locals differently: compare positionally after renaming is not needed when names coincide
+    if "complex" in res and "real" in res:
+        (o1, v1, c1), (o2, v2, c2) = res["complex"][0], res["real"][0]
+        ren = {}
+        for a, c in zip(v1, v2):
+            for k in range(2):
+                if a in c1 and c in c2:
+                    ren[c2[c][k]] = c1[a][k]
+
+        def rn(p):
+            return Poly({tuple(sorted(ren.get(x, x) for x in k)): v for k, v in p.t.items()})
+        same = all(o1[a]["re"] == rn(o2[c]["re"]) and o1[a]["im"] == rn(o2[c]["im"]) for a, c in zip(v1, v2))
         ctx.check(same, "C08-S4", site, "gradient: the complex and the real branch disagree on a coefficient (Re <-> row 2iT, Im <-> row 2iT+1)",
                   "as_complex only changes the storage: G_real[2f] + i G_real[2f+1] must equal G_complex[f]", note="real / complex branches agree slot by slot")
-    # shape of the real branch is doubled
-    arrays, ctor = H.coo_arrays(fn)
-    shape = [k.value for k in (ctor.keywords if ctor else []) if k.arg == "shape"]
-    ok = False
-    if shape and isinstance(shape[0], ast.Tuple) and isinstance(shape[0].elts[0], ast.Name):
-        M = shape[0].elts[0].id
-        real_loop = [lp for lp in loops if au.guards(lp) and not au.guards(lp)[0][1]]
-        if real_loop:
-            blk, _ = au.enclosing_block(real_loop[0])
-            for s in blk:
-                if isinstance(s, ast.AugAssign) and isinstance(s.target, ast.Name) and s.target.id == M and isinstance(s.op, ast.Mult) and au.const(s.value) == 2:
-                    ok = True
-                if isinstance(s, ast.Assign) and isinstance(s.targets[0], ast.Name) and s.targets[0].id == M and sym.to_poly(s.value) == Poly.atom(M).scale(2):
-                    ok = True
-        bases = [v for x in au.stmts(fn.body) for nm, v in sym.split_assign(x) if nm == M and isinstance(v, ast.Call) and au.call_tail(v) == "len"]
-        ok = ok and len(bases) == 1 and au.chain(bases[0].args[0]) is not None and au.chain(bases[0].args[0])[-1] == "faces"
-    ctx.check(ok, "C08-S4", site, "gradient: the real branch does not double the number of rows of the |F| x |V| shape",
-              "rows 2*iT and 2*iT+1 need 2|F| rows", note="real branch has 2|F| rows")
+    elif "as_complex" in au.params(fn):
+        ctx.undecided("C08-S4", site, f"gradient: only the {list(res)[0]} assembly path recognised", "the complex and the real storage could not be compared")
+    # number of rows: |F| for the complex operator, 2|F| for the real one
+    e = he_norm.return_expr(V)
+    shape = None
+    if isinstance(e, ast.Call):
+        shape = next((k.value for k in e.keywords if k.arg == "shape"), None)
+        if shape is None and len(e.args) >= 2:
+            shape = e.args[1]
+    if not (isinstance(shape, ast.Tuple) and len(shape.elts) == 2):
+        ctx.undecided("C08-S4", site, "gradient: the shape of the returned sparse matrix not recognised", "")
+        return
+    b = sym.Bindings(V)
+
+    def lenpoly(x):
+        def atom(y):
+            if isinstance(y, ast.Call) and au.call_tail(y) == "len" and len(y.args) == 1:
+                return "len(" + au.src(y.args[0]) + ")"
+            return None
+        return sym.to_poly(x, atom_of=atom, opaque=True)
+    rows_e = shape.elts[0]
+    got = {}
+    for val in (True, False):
+        class T(ast.NodeTransformer):
+            def visit_IfExp(self, n):
+                t, pol = au.strip_not(n.test)
+                if isinstance(t, ast.Name) and t.id == "as_complex":
+                    return self.visit(n.body if (val == pol) else n.orelse)
+                return self.generic_visit(n)
+        got[val] = lenpoly(T().visit(sym.clone(rows_e)))
+    nf = Poly.atom("len(mesh.faces)")
+    if any(a.startswith("⟨") for p in got.values() for a in p.atoms()):
+        ctx.undecided("C08-S4", site, "gradient: the number of rows of the returned matrix is not read as a multiple of the number of faces", "")
+    else:
+        ctx.check(got[True] == nf and got[False] == nf.scale(2), "C08-S4", site,
+                  f"gradient: the returned matrix has {got[True]} rows when complex and {got[False]} rows when real (expected |F| and 2|F|)",
+                  "rows 2*iT and 2*iT+1 need 2|F| rows", note="real branch has 2|F| rows")
 
 
 # ----------------------------------------------------------------------- C08-M1
@@ -844,6 +1224,176 @@ MASS_KIND = {
     "area_weight_matrix_edges": ("edges", "faces"), "volume_weight_matrix": ("vertices", "cells"),
     "volume_weight_matrix_cells": ("cells", "cells"),
 }
+VIEW_PRESERVING = {"atleast_1d", "asarray", "asanyarray", "squeeze", "ravel", "reshape", "view", "transpose", "as_array"}
+
+
+class _Undecidable(Exception):
+    pass
+
+
+def _truth(e, env):
+    """truth value of a test under an assignment of boolean options (constants are evaluated), _Undecidable otherwise"""
+    if isinstance(e, ast.Name) and e.id in env:
+        return env[e.id]
+    if isinstance(e, ast.Constant):
+        return bool(e.value)
+    if isinstance(e, ast.UnaryOp) and isinstance(e.op, ast.Not):
+        return not _truth(e.operand, env)
+    if isinstance(e, ast.BoolOp):
+        vals = [_truth(v, env) for v in e.values]
+        return all(vals) if isinstance(e.op, ast.And) else any(vals)
+    if isinstance(e, ast.Compare) and len(e.ops) == 1:
+        l, r = _specialise(e.left, env), _specialise(e.comparators[0], env)
+        a, c = au.literal(l), au.literal(r)
+        if (a is not None or (isinstance(l, ast.Constant))) and (c is not None or isinstance(r, ast.Constant)):
+            import operator as _o
+            ops = {ast.Eq: _o.eq, ast.NotEq: _o.ne, ast.Lt: _o.lt, ast.LtE: _o.le, ast.Gt: _o.gt, ast.GtE: _o.ge, ast.Is: _o.is_, ast.IsNot: _o.is_not}
+            if type(e.ops[0]) in ops:
+                try:
+                    return bool(ops[type(e.ops[0])](a, c))
+                except Exception:
+                    pass
+    raise _Undecidable(au.src(e))
+
+
+def _specialise(e, env):
+    """expression with its conditional sub-expressions resolved under the assignment env (those that can be decided)"""
+    class T(ast.NodeTransformer):
+        def visit_IfExp(self, n):
+            try:
+                t = _truth(n.test, env)
+            except _Undecidable:
+                return self.generic_visit(n)
+            return self.visit(n.body if t else n.orelse)
+    return T().visit(sym.clone(e))
+
+
+TRANSFORMING = {"sqrt", "reciprocal", "power", "float_power", "divide", "true_divide", "square", "cbrt", "exp", "log", "abs", "absolute", "maximum", "minimum",
+                "clip", "where", "multiply", "negative", "rsqrt"}
+
+
+def _num(e):
+    from .. import order as _order
+    v = _order.fold_const(e)
+    return v if isinstance(v, (int, float)) and not isinstance(v, bool) else None
+
+
+def _power_form(e):
+    """(exponent, base) of  base ** exponent  written with np.sqrt / 1/x / np.reciprocal / ** / np.power;
+    _Undecidable when the expression transforms its argument in a way the rule does not evaluate"""
+    p, b = _power_form0(e)
+    for n in ast.walk(b):
+        if isinstance(n, ast.BinOp) or (isinstance(n, ast.Call) and au.call_tail(n) in TRANSFORMING):
+            raise _Undecidable(au.src(b))
+    return p, b
+
+
+def _power_form0(e):
+    from fractions import Fraction as Fr
+    _power_form = _power_form0
+    if isinstance(e, ast.Call):
+        t = au.call_tail(e)
+        if t == "sqrt" and len(e.args) == 1:
+            p, b = _power_form(e.args[0])
+            return p * Fr(1, 2), b
+        if t == "reciprocal" and len(e.args) == 1:
+            p, b = _power_form(e.args[0])
+            return -p, b
+        if t in ("power", "float_power") and len(e.args) == 2:
+            c = _num(e.args[1])
+            if c is not None:
+                p, b = _power_form(e.args[0])
+                return p * Fr(c).limit_denominator(64), b
+        if t in ("divide", "true_divide") and len(e.args) == 2 and au.const(e.args[0]) in (1, 1.0):
+            p, b = _power_form(e.args[1])
+            return -p, b
+        if t in ("atleast_1d", "asarray", "array", "squeeze", "copy") and len(e.args) >= 1:
+            return _power_form(e.args[0])
+        if t == "copy" and isinstance(e.func, ast.Attribute) and not e.args:
+            return _power_form(e.func.value)
+    if isinstance(e, ast.BinOp):
+        if isinstance(e.op, ast.Div) and au.const(e.left) in (1, 1.0):
+            p, b = _power_form(e.right)
+            return -p, b
+        if isinstance(e.op, ast.Pow) and _num(e.right) is not None:
+            p, b = _power_form(e.left)
+            return p * Fr(_num(e.right)).limit_denominator(64), b
+    return Fr(1), e
+
+
+def _inplace_on_views(V):
+    """[(node, name)]: in-place numpy operations on an array that may be a view of the storage of a mesh attribute (attr.as_array())"""
+    hits = []
+
+    def is_view(e, state):
+        if isinstance(e, ast.Name):
+            return e.id in state
+        if isinstance(e, ast.IfExp):
+            return is_view(e.body, state) or is_view(e.orelse, state)
+        if isinstance(e, ast.Subscript) and isinstance(e.slice, ast.Slice):
+            return is_view(e.value, state)
+        if isinstance(e, ast.Call):
+            t = au.call_tail(e)
+            if t == "as_array":
+                return True
+            if t in VIEW_PRESERVING:
+                if isinstance(e.func, ast.Attribute) and not (isinstance(e.func.value, ast.Name) and e.func.value.id in ("np", "numpy")):
+                    return is_view(e.func.value, state)
+                return bool(e.args) and is_view(e.args[0], state)
+        return False
+
+    def walk(body, state):
+        for st in body:
+            if isinstance(st, ast.Assign):
+                for nm, v in sym.split_assign(st):
+                    if is_view(v, state):
+                        state.add(nm)
+                    else:
+                        state.discard(nm)
+                for t in st.targets:
+                    if isinstance(t, ast.Subscript) and isinstance(t.value, ast.Name) and t.value.id in state:
+                        hits.append((st, t.value.id))
+            elif isinstance(st, ast.AugAssign):
+                t = st.target
+                if isinstance(t, ast.Name) and t.id in state:
+                    hits.append((st, t.id))
+                if isinstance(t, ast.Subscript) and isinstance(t.value, ast.Name) and t.value.id in state:
+                    hits.append((st, t.value.id))
+            elif isinstance(st, ast.Expr) and isinstance(st.value, ast.Call):
+                for k in st.value.keywords:
+                    if k.arg == "out" and isinstance(k.value, ast.Name) and k.value.id in state:
+                        hits.append((st, k.value.id))
+            elif isinstance(st, ast.If):
+                s1, s2 = set(state), set(state)
+                walk(st.body, s1)
+                walk(st.orelse, s2)
+                state.clear()
+                state.update(s1 | s2)
+            elif isinstance(st, (ast.For, ast.While, ast.With, ast.Try)):
+                walk(st.body, state)
+    walk(V.body, set())
+    return hits
+
+
+def _all_plain_arrays(e):
+    """every value the expression can take is the array of diagonal coefficients itself (a name, possibly inverted / square-rooted)"""
+    leaves = []
+
+    def rec(x):
+        if isinstance(x, ast.IfExp):
+            rec(x.body)
+            rec(x.orelse)
+        else:
+            leaves.append(x)
+    rec(e)
+    for x in leaves:
+        try:
+            p, base = _power_form(x)
+        except _Undecidable:
+            return False
+        if not isinstance(base, (ast.Name, ast.Subscript)) and not (isinstance(base, ast.Call) and au.call_tail(base) in ("zeros", "as_array", "array")):
+            return False
+    return bool(leaves)
 
 
 def m1_mass(ctx):
@@ -852,65 +1402,151 @@ def m1_mass(ctx):
     for name, (kind, measure) in MASS_KIND.items():
         fn = ctx.repo.func(MASS, name)
         site = ctx.site(MASS, fn)
-        K = H.Kinds(ctx.repo, m.name, fn, resolver)
-        rets = [s for s in au.stmts(fn.body) if isinstance(s, ast.Return) and s.value is not None]
-        problems = []
-        diag = None
-        if len(rets) == 1 and isinstance(rets[0].value, ast.Call) and au.call_tail(rets[0].value) == "diags" and rets[0].value.args \
-                and isinstance(rets[0].value.args[0], ast.Name):
-            diag = rets[0].value.args[0].id
+        V = H.fview(ctx, MASS, fn)
+        K = H.Kinds(ctx.repo, m.name, V, resolver)
+        # (a) a view of a cached attribute is never modified in place
+        for node, nm in _inplace_on_views(V):
+            ctx.fail("C08-M1", ctx.site(MASS, fn, node), f"{name}: an array obtained from `attribute.as_array()` is modified in place (`{au.src(node)[:60]}`)",
+                     "for a dense attribute as_array() is a view of the storage of the attribute cached on the mesh: the returned matrix is right but the "
+                     "cached areas / volumes are overwritten, and every later operator built on them is wrong")
+        # (b) the returned matrix is diag(measure ** p), p = (-1 if inverse) * (1/2 if sqrt)
+        e = he_norm.return_expr(V)
+        if not (isinstance(e, ast.Call) and au.call_tail(e) in ("diags", "spdiags", "dia_matrix") and e.args):
+            if isinstance(e, ast.Call) and au.call_tail(e) in ("csc_matrix", "csr_matrix", "coo_matrix", "lil_matrix"):
+                ctx.undecided("C08-M1", site, f"{name}: the returned matrix is not built with sp.diags", "a lumped mass matrix is diagonal")
+            elif e is not None and _all_plain_arrays(e):
+                ctx.fail("C08-M1", site, f"{name}: the function returns the array of diagonal coefficients itself, not a sparse diagonal matrix",
+                         "a lumped mass matrix is diagonal with one positive entry per element")
+            else:
+                ctx.undecided("C08-M1", site, f"{name}: returned sp.diags(<array>) not recognised", "")
+            continue
+        D = e.args[0]
+        opts = [p for p in ("inverse", "sqrt") if p in au.params(fn)]
+        bases, problems, und = set(), [], []
+        base_expr = None
+        for vals in itertools.product((False, True), repeat=len(opts)):
+            env = dict(zip(opts, vals))
+            d = _specialise(D, env)
+            if any(isinstance(x, ast.IfExp) and (au.names(x.test) & set(opts)) for x in ast.walk(d)):
+                und.append("the diagonal depends on a condition the rule cannot evaluate")
+                break
+            try:
+                p, base = _power_form(d)
+            except _Undecidable:
+                und.append("the transformation applied to the diagonal under the options is not evaluated by the rule")
+                break
+            want = Fraction(1)
+            if env.get("inverse"):
+                want = -want
+            if env.get("sqrt"):
+                want = want / 2
+            bases.add(au.norm(base))
+            base_expr = base
+            if p != want:
+                on = ", ".join(f"{k}={v}" for k, v in env.items()) or "no option"
+                problems.append(f"with {on} the diagonal is the measure to the power {p} instead of {want}")
+        if len(bases) > 1 and not und:
+            und.append("the diagonal is built from different arrays depending on the options")
+        if problems:
+            ctx.fail("C08-M1", site, f"{name}: " + "; ".join(problems),
+                     "a lumped mass matrix is diagonal with one positive entry per element; `inverse` / `sqrt` return its inverse / square root (A^-1/2 together)")
+            continue
+        if und:
+            ctx.undecided("C08-M1", site, f"{name}: " + "; ".join(und), "")
+            continue
+        # (c) the diagonal itself
+        problems, und = [], []
+        if kind == measure:
+            be = base_expr
+            srcs = be if isinstance(be, ast.Call) and au.call_tail(be) == "as_array" else None
+            if srcs is None and isinstance(be, ast.Name):
+                d = sym.Bindings(V).resolve(be, at=V.body[-1])
+                srcs = d if isinstance(d, ast.Call) and au.call_tail(d) == "as_array" else None
+            if srcs is None:
+                und.append(f"the diagonal is not read as the {measure[:-1]} measure attribute itself (`attr.as_array(len(mesh.{measure}))`)")
+            else:
+                recv = srcs.func.value if isinstance(srcs.func, ast.Attribute) else None
+                rk = _attr_kind(K, V, recv)
+                if rk is not None and rk != measure:
+                    problems.append(f"the diagonal is an attribute of the {rk}, expected the measure of the {measure}")
+                if len(srcs.args) == 1:
+                    lk = K.kind(srcs.args[0])
+                    if isinstance(lk, tuple) and lk[0] == "len" and lk[1] != measure:
+                        problems.append(f"`{au.src(srcs)}` sizes the array by len(mesh.{lk[1]}), not len(mesh.{measure}) (a sparse attribute is expanded to that length)")
         else:
-            problems.append("does not return sp.diags(<array>)")
-        if diag:
-            k = K.name_kind(diag)
-            if k != ("idx", kind):
-                problems.append(f"the diagonal `{diag}` is {'indexed by ' + str(k[1]) if isinstance(k, tuple) else 'of unknown indexing'}, expected one entry per element of {kind}")
-            accs = [s for s in au.stmts(fn.body) if isinstance(s, ast.AugAssign) and isinstance(s.target, ast.Subscript)
-                    and isinstance(s.target.value, ast.Name) and s.target.value.id == diag]
-            if kind != measure:
-                if len(accs) != 1 or not isinstance(accs[0].op, ast.Add):
-                    problems.append(f"{len(accs)} accumulation(s) `{diag}[i] += measure[j]` found (expected one)")
+            diag = base_expr.id if isinstance(base_expr, ast.Name) else None
+            if diag is None:
+                und.append("the accumulated diagonal array not recognised")
+            else:
+                k = K.name_kind(diag)
+                if isinstance(k, tuple) and k[0] == "idx" and k[1] != kind and k[1] in H.CONTAINERS:
+                    problems.append(f"the diagonal `{diag}` has one entry per element of {k[1]}, expected one per element of {kind}")
+                accs = [s for s in au.stmts(V.body) if au.increment(s) is not None and isinstance((s.target if isinstance(s, ast.AugAssign) else s.targets[0]), ast.Subscript)
+                        and au.src((s.target if isinstance(s, ast.AugAssign) else s.targets[0]).value) == diag]
+                plain = [s for s in au.stmts(V.body) if isinstance(s, ast.Assign) and len(s.targets) == 1 and isinstance(s.targets[0], ast.Subscript)
+                         and au.src(s.targets[0].value) == diag and au.increment(s) is None and any(isinstance(a, (ast.For, ast.While)) for a in au.ancestors(s))
+                         and any(isinstance(x, ast.Subscript) and K.kind(x.value) == ("idx", measure) for x in ast.walk(s.value))]
+                if not accs and plain:
+                    problems.append(f"the {measure[:-1]} measure is stored into `{diag}[..]` instead of accumulated: only the last incident element counts")
+                elif not accs or au.increment(accs[0])[1] != 1 or len({au.src(au.increment(a)[2]) + "|" + au.increment(a)[0] for a in accs}) != 1 \
+                        or (len(accs) > 1 and kind == "vertices"):
+                    und.append(f"{len(accs)} accumulation(s) `{diag}[i] += measure[j]` found (expected one)")
                 else:
                     a = accs[0]
-                    coef, num, den = H.factors(a.value)
+                    coef, num, den = H.factors(sym.Bindings(V).resolve(au.increment(a)[2], at=a))
                     meas = [x for x in num if isinstance(x, ast.Subscript) and K.kind(x.value) == ("idx", measure)]
-                    if len(meas) != 1 or len(num) != 1 or den:
-                        problems.append(f"`{au.src(a)}` does not add the {measure[:-1]} measure of the incident element")
+                    other_attr = [x for x in num if isinstance(x, ast.Subscript) and isinstance(K.kind(x.value), tuple) and K.kind(x.value)[0] == "idx"
+                                  and K.kind(x.value)[1] not in (measure, H.ANY)]
+                    if other_attr:
+                        problems.append(f"the accumulated term reads an attribute of the {K.kind(other_attr[0].value)[1]}, not the {measure[:-1]} measure")
+                    elif len(meas) != 1 or len(num) != 1 or den:
+                        und.append(f"the accumulated term is not read as the {measure[:-1]} measure of the incident element")
                     loops = [x for x in au.ancestors(a) if isinstance(x, ast.For)]
-                    if kind == "vertices":
-                        # for i,row in enumerate(mesh.<measure>): for u in row: (unguarded)
-                        rowvar = loops[1].target.elts[1] if len(loops) == 2 and isinstance(loops[1].target, ast.Tuple) and len(loops[1].target.elts) == 2 else None
-                        ok = len(loops) == 2 and not au.guards(a) and K.kind(loops[1].iter) == ("seq", ("tup", (measure, ("row", measure)))) \
-                            and isinstance(rowvar, ast.Name) and isinstance(loops[0].iter, ast.Name) and loops[0].iter.id == rowvar.id and coef == 1 \
-                            and not any(isinstance(x, (ast.Continue, ast.Break)) for lp in loops for x in au.stmts(lp.body))
-                        if not ok:
-                            problems.append(f"`{au.src(a)}` is not executed once for every (element, vertex) incidence of mesh.{measure} with weight 1")
-                    else:
-                        gs = [au.src(t) for t, pol in au.guards(a)]
-                        skips = [s for lp in loops[:1] for s in lp.body if isinstance(s, ast.If)]
-                        ok = len(loops) == 2 and coef > 0
-                        if not ok:
-                            problems.append(f"`{au.src(a)}` is not accumulated over the elements incident to each {kind[:-1]}")
-            else:
-                srcs = [s for s in au.stmts(fn.body) if isinstance(s, ast.Assign) and isinstance(s.value, ast.Call)
-                        and au.call_tail(s.value) == "as_array" and any(isinstance(t, ast.Name) and t.id == diag for t in s.targets)]
-                if len(srcs) != 1 or K.kind(srcs[0].value.func.value) != ("idx", measure) or accs:
-                    problems.append(f"the diagonal is not the {measure[:-1]} measure attribute itself (`attr.as_array(len(mesh.{measure}))`)")
-                elif len(srcs[0].value.args) != 1 or K.kind(srcs[0].value.args[0]) != ("len", measure):
-                    problems.append(f"`{au.src(srcs[0].value)}` does not size the array by len(mesh.{measure}) (a sparse attribute is expanded to that length)")
-            # switches
-            ps = au.params(fn)
-            for sw, test in (("sqrt", lambda v: isinstance(v, ast.Call) and au.call_tail(v) == "sqrt" and au.src(v.args[0]) == diag),
-                             ("inverse", lambda v: isinstance(v, ast.BinOp) and isinstance(v.op, ast.Div) and au.const(v.left) in (1, 1.0) and au.src(v.right) == diag)):
-                if sw not in ps:
-                    continue
-                hit = [s for s in fn.body if isinstance(s, ast.If) and isinstance(s.test, ast.Name) and s.test.id == sw and not s.orelse
-                       and len(s.body) == 1 and isinstance(s.body[0], ast.Assign) and au.src(s.body[0].targets[0]) == diag and test(s.body[0].value)]
-                if len(hit) != 1:
-                    problems.append(f"the `{sw}` switch does not rebind the diagonal to {'np.sqrt(d)' if sw == 'sqrt' else '1/d'}")
-        ctx.check(not problems, "C08-M1", site, f"{name}: " + "; ".join(problems),
-                  "a lumped mass matrix is diagonal with one positive entry per element, the sum over incident measures",
-                  note=f"{name}: sp.diags over {kind}, measure on {measure}")
+                    if kind == "vertices" and not und and not problems:
+                        Fm = he_seq.Forms(V, ctx.repo, m.name)
+                        el = element_loop(Fm, loops[1], measure) if len(loops) == 2 else None
+                        outer_ok = el is not None and bool(el[1])
+                        sq = Fm.seq(loops[0].iter, loops[0]) if outer_ok else None
+                        shape_ok = outer_ok and sq is not None and (sq.base in el[1] or au.src(loops[0].iter) in el[1])
+                        if shape_ok and el[0] is not None and meas and au.src(sym.Bindings(V).resolve(meas[0].slice, at=a, keep=(el[0],))) != el[0]:
+                            problems.append(f"the measure added to the vertices of an element is read at `{au.src(meas[0].slice)}`, not at the index of that element")
+                        if shape_ok and he_seq.full(sq) is None:
+                            und.append("the number of vertices visited per element is not known")
+                        elif shape_ok and not he_seq.full(sq):
+                            problems.append(f"only a part of the vertices of each {measure[:-1]} receives its measure (the inner loop runs over `{au.src(loops[0].iter)}`)")
+                        elif not shape_ok:
+                            und.append("the loop nest over (element, vertex of the element) not recognised")
+                        else:
+                            if au.guards(a, stop=loops[1]) or any(isinstance(x, (ast.Continue, ast.Break)) for lp in loops for x in au.stmts(lp.body)):
+                                problems.append("the accumulation is conditional: some (element, vertex) incidences do not contribute")
+                            if coef != 1:
+                                problems.append(f"each incident element contributes {coef} times its measure instead of its measure")
+                    elif not und and not problems:
+                        Fm = he_seq.Forms(V, ctx.repo, m.name)
+                        if not loops or _edge_loop(Fm, loops[-1]) is None or len(loops) > 2:
+                            und.append(f"the accumulation over the elements incident to each {kind[:-1]} not recognised")
+                        elif coef <= 0:
+                            problems.append(f"incident elements contribute with the non-positive coefficient {coef}")
+        if problems:
+            ctx.fail("C08-M1", site, f"{name}: " + "; ".join(problems),
+                     "a lumped mass matrix is diagonal with one positive entry per element, the sum over incident measures")
+        elif und:
+            ctx.undecided("C08-M1", site, f"{name}: " + "; ".join(und), "")
+        else:
+            ctx.ok("C08-M1", site, f"{name}: sp.diags over {kind}, measure on {measure}")
+
+
+def _attr_kind(K, V, e):
+    """container of the attribute expression e (through conditional expressions), None when unknown"""
+    if e is None:
+        return None
+    if isinstance(e, ast.IfExp):
+        a, c = _attr_kind(K, V, e.body), _attr_kind(K, V, e.orelse)
+        return a if a == c else (a or c)
+    k = K.kind(e)
+    if isinstance(k, tuple) and k[0] == "idx" and k[1] in H.CONTAINERS:
+        return k[1]
+    return None
 
 
 # ----------------------------------------------------------------------- C08-K1 (matrix axes)
@@ -920,19 +1556,34 @@ def k1_matrix_axes(ctx):
     for modname, name in ((LAP, "graph_laplacian"), (ADJ, "adjacency_matrix"), (GRAD, "gradient")):
         fn = ctx.repo.func(modname, name)
         m = ctx.repo.module(modname)
-        K = H.Kinds(ctx.repo, m.name, fn, H.make_attr_func_kind(ctx.repo, m.name))
-        st = H.Stencil(fn)
-        arrays, ctor = st.arrays, st.ctor
+        V = H.fview(ctx, modname, fn)
+        K = H.Kinds(ctx.repo, m.name, V, H.make_attr_func_kind(ctx.repo, m.name))
+        arrays, ctor = H.coo_arrays(V)
         shape = [k.value for k in (ctor.keywords if ctor else []) if k.arg == "shape"]
-        if not arrays or not shape or not isinstance(shape[0], ast.Tuple) or len(shape[0].elts) != 2:
-            ctx.fail("C08-K1", ctx.site(modname, fn), f"{name}: sparse constructor with an explicit shape not found", "")
+        if not arrays or not shape:
+            ctx.undecided("C08-K1", ctx.site(modname, fn), f"{name}: sparse constructor with an explicit shape not recognised", "")
+            continue
+        b = sym.Bindings(V)
+        sh = b.resolve(shape[0], at=ctor)
+        if not isinstance(sh, ast.Tuple) or len(sh.elts) != 2:
+            ctx.undecided("C08-K1", ctx.site(modname, fn), f"{name}: shape of the sparse matrix is not a pair", "")
             continue
         want = []
-        for x in shape[0].elts:
-            k = K.kind(x)
-            want.append(k[1] if isinstance(k, tuple) and k[0] == "len" else None)
+        for x in sh.elts:
+            ks = set()
+            for alt in (_specialisations(x) or [x]):
+                k = K.kind(alt)
+                ks.add(k[1] if isinstance(k, tuple) and k[0] == "len" else None)
+                if isinstance(alt, ast.BinOp) and isinstance(alt.op, ast.Mult):
+                    for side in (alt.left, alt.right):
+                        k2 = K.kind(side)
+                        if isinstance(k2, tuple) and k2[0] == "len":
+                            ks.discard(None)
+                            ks.add(k2[1])
+            ks.discard(None)
+            want.append(ks.pop() if len(ks) == 1 else None)
         d, r, c = arrays
-        for s in au.walk(fn):
+        for s in au.walk(V):
             pairs = []
             if isinstance(s, ast.Assign) and len(s.targets) == 1:
                 t, v = s.targets[0], s.value
@@ -940,20 +1591,22 @@ def k1_matrix_axes(ctx):
                     pairs = list(zip(t.elts, v.elts))
                 else:
                     pairs = [(t, v)]
-                for e in st.emits_of(s) if st.helper else []:
-                    pairs += [(ast.Subscript(value=ast.Name(id=r, ctx=ast.Load()), slice=e.slot, ctx=ast.Store()), e.row),
-                              (ast.Subscript(value=ast.Name(id=c, ctx=ast.Load()), slice=e.slot, ctx=ast.Store()), e.col)]
             for t, v in pairs:
                 if isinstance(t, ast.Subscript) and isinstance(t.value, ast.Name) and t.value.id in (r, c):
                     axis = 0 if t.value.id == r else 1
                     got = K.kind(v, K._scope_of(s))
+                    if isinstance(v, ast.BinOp):        # 2*iT (+1): rows of the real gradient are addressed per face
+                        for x in ast.walk(v):
+                            if isinstance(x, ast.Name) and isinstance(K.kind(x, K._scope_of(s)), str):
+                                got = K.kind(x, K._scope_of(s))
                     if want[axis] and isinstance(got, str) and got in H.CONTAINERS:
                         n += 1
                         ctx.check(got == want[axis], "C08-K1", ctx.site(modname, fn, s),
-                                  f"{name}: {'row' if axis == 0 else 'column'} index `{au.src(v)}` is an id of {got} but that axis has one line per element of {want[axis]}",
+                                  f"{name}: a {'row' if axis == 0 else 'column'} index is an id of {got} but that axis has one line per element of {want[axis]}",
                                   "entries land on lines of the wrong element kind (or beyond the shape)",
                                   note=f"{name}: {'rows' if axis == 0 else 'cols'} are {want[axis]} ids")
-    ctx.require_count("C08-K1 typed row/col stores", n, 2)
+    if n == 0:
+        ctx.undecided("C08-K1", ctx.site(LAP, "<module>"), "no typed row / column store recognised in graph_laplacian, adjacency_matrix, gradient", "")
 
 
 # ----------------------------------------------------------------------- C08-O1
@@ -980,113 +1633,231 @@ def opposite_index_sites(fn):
         if isinstance(n, ast.BinOp) and isinstance(n.op, ast.Sub) and not (isinstance(au.parent(n), ast.BinOp) and isinstance(au.parent(n).op, (ast.Sub, ast.Add))):
             p = sym.to_poly(n, opaque=True)
             neg = [k[0] for k, v in p.t.items() if len(k) == 1 and v == -1]
-            if p.const_value() == 3 and len(neg) == 2 and not any(x.startswith("\u27e8") for x in neg):
+            if p.const_value() == 3 and len(neg) == 2 and not any(x.startswith("⟨") for x in neg):
                 others = [k for k, v in p.t.items() if k and not (len(k) == 1 and v == -1)]
                 yield n, neg, others
 
 
+def _trace_zip_weight(V, F, loop, name, verts):
+    """a weight bound by `for (p, q, r), (w1, w2, w3) in zip(mesh.faces, L)`: (vertex of this loop's face whose corner cotangent it is, coefficient)
+    read from the `L.append((..))` of the earlier pass over the faces; "uniform" for a constant list; None when not traceable"""
+    it = loop.iter
+    if not (isinstance(it, ast.Call) and isinstance(it.func, ast.Name) and it.func.id == "zip" and isinstance(loop.target, ast.Tuple)
+            and len(loop.target.elts) == len(it.args)):
+        return None
+    for k, t in enumerate(loop.target.elts):
+        elts = t.elts if isinstance(t, (ast.Tuple, ast.List)) else [t]
+        for j, x in enumerate(elts):
+            if isinstance(x, ast.Name) and x.id == name.id and isinstance(it.args[k], ast.Name):
+                L = it.args[k].id
+                b = F.b
+                kinds = set()
+                out = None
+                for s in au.stmts(V.body):
+                    if any(nm == L for nm, _ in sym.split_assign(s)):
+                        v = next(v for nm, v in sym.split_assign(s) if nm == L)
+                        if isinstance(v, ast.BinOp) and isinstance(v.op, ast.Mult) and isinstance(v.left, ast.List) and len(v.left.elts) == 1:
+                            kinds.add("uniform")
+                        elif isinstance(v, ast.List) and not v.elts:
+                            pass
+                        else:
+                            return None
+                    if isinstance(s, ast.Expr) and isinstance(s.value, ast.Call) and isinstance(s.value.func, ast.Attribute) and s.value.func.attr == "append" \
+                            and isinstance(s.value.func.value, ast.Name) and s.value.func.value.id == L and len(s.value.args) == 1:
+                        lp1 = next((a for a in au.ancestors(s) if isinstance(a, ast.For)), None)
+                        if lp1 is None or not any(s is y for y in lp1.body):
+                            return None
+                        L1 = he_seq.LoopCtx(F, lp1.target, lp1.iter, lp1)
+                        rows1 = next((r for r in L1.rows.values() if None not in r), None)
+                        if L1.seq is None or not (L1.seq.base or "").endswith(".faces") or not rows1 or len(rows1) != len(verts):
+                            return None
+                        item = s.value.args[0]
+                        e1 = item.elts[j] if isinstance(item, (ast.Tuple, ast.List)) and isinstance(t, (ast.Tuple, ast.List)) and len(item.elts) == len(elts) else (item if not isinstance(t, (ast.Tuple, ast.List)) else None)
+                        if e1 is None:
+                            return None
+                        e1 = b.resolve(e1, at=s, keep=tuple(rows1))
+                        c1, n1, d1 = H.factors(e1)
+                        look = [c for f in n1 for c in ast.walk(f) if isinstance(c, ast.Call) and au.call_tail(c) == "vertex_to_corner_in_face" and c.args]
+                        if len(look) != 1 or d1 or au.src(look[0].args[0]) not in rows1:
+                            return None
+                        kinds.add("cot")
+                        out = (verts[rows1.index(au.src(look[0].args[0]))], c1)
+                if out is not None:
+                    return out
+                if kinds == {"uniform"}:
+                    return "uniform"
+                return None
+    return None
+
+
 def o1_opposite(ctx):
-    # (a) laplacian: weight of edge (x,y) is the half cotangent at the third vertex
+    # (a) laplacian: the weight of edge (x,y) is half the cotangent at the third vertex of the face
     fn = ctx.repo.func(LAP, "laplacian")
     site = ctx.site(LAP, fn)
-    b = sym.Bindings(fn)
-    lits = [s for s in au.stmts(fn.body) if isinstance(s, ast.For) and isinstance(s.iter, (ast.List, ast.Tuple))
-            and all(isinstance(x, ast.Tuple) and len(x.elts) == 3 for x in s.iter.elts)]
-    if len(lits) != 1:
-        ctx.fail("C08-O1", site, "laplacian: literal loop over the three (edge, weight) triples of a face not found", "")
-    else:
-        lp = lits[0]
-        outer = [a for a in au.ancestors(lp) if isinstance(a, ast.For)]
-        verts = []
-        if outer and isinstance(outer[0].target, ast.Tuple) and len(outer[0].target.elts) == 2 and isinstance(outer[0].target.elts[1], (ast.Tuple, ast.List)):
-            verts = [x.id for x in outer[0].target.elts[1].elts if isinstance(x, ast.Name)]
-        problems = []
-        edges = set()
-        weights_of = {}
-        # weights: every definition of the weight names (both cotan branches)
-        for s in au.stmts(outer[0].body if outer else []):
-            for name, v in sym.split_assign(s):
-                weights_of.setdefault(name, []).append((v, s))
-        for t in lp.iter.elts:
-            x, y, w = (au.src(e) for e in t.elts)
-            if x == y or x not in verts or y not in verts or frozenset((x, y)) in edges:
-                problems.append(f"({x}, {y}) is not a new edge of the face {verts}")
+    V = H.fview(ctx, LAP, fn)
+    m = ctx.repo.module(LAP)
+    F = he_seq.Forms(V, ctx.repo, m.name)
+    b = F.b
+    st = ST.Stencil(V)
+    n_a = 0
+    problems = []
+    # a scalar applied to the assembled matrix as a whole (`return 0.5 * mat`) belongs to every weight
+    scale = None
+    re_ = he_norm.return_expr(V)
+    if re_ is not None:
+        sc, snum, sden = H.factors(re_)
+        if len(snum) == 1 and not sden and isinstance(snum[0], ast.Call) and au.call_tail(snum[0]) in ("csc_matrix", "csr_matrix", "coo_matrix", "tocsc", "tocsr", "tocoo"):
+            scale = sc
+
+    def face_verts(loop):
+        LF = he_seq.LoopCtx(F, loop.target, loop.iter, loop)
+        if LF.seq is None or not (LF.seq.base or "").endswith(".faces"):
+            return None
+        verts = next((r for r in LF.rows.values() if None not in r), None)
+        if verts and len(verts) == 3:
+            return list(verts)
+        row = next((nm for nm, d in LF.names.items() if d[0] == "at" and d[2] == 0 and not d[3]), None)
+        return [f"{row}[{k}]" for k in range(3)] if row else None
+
+    def fold(e):
+        return he_norm.fold_literals(ast.Expr(value=sym.clone(e))).value
+    for loop, paths in ST.units(st, V.body):
+        verts = face_verts(loop)
+        if not verts:
+            continue
+        for path in paths:
+            for e in path.entries:
+                x, y = au.src(fold(e.row)), au.src(fold(e.col))
+                if x == y or x not in verts or y not in verts:
+                    continue
+                val = fold(b.resolve(fold(e.val), at=e.node, keep=tuple(au.names(ast.parse(verts[0], mode="eval"))) + tuple(v for v in verts if v.isidentifier())))
+                coef, num, den = H.factors(val)
+                look = [c for f in num for c in ast.walk(f) if isinstance(c, ast.Call) and au.call_tail(c) == "vertex_to_corner_in_face" and c.args]
+                at_v = au.src(fold(look[0].args[0])) if look else None
+                if not look:
+                    # weights prepared per face in an earlier pass and zipped with the faces: follow the list back to where it is filled
+                    tr = [_trace_zip_weight(V, F, loop, f, verts) for f in num if isinstance(f, ast.Name)]
+                    tr = [t for t in tr if t is not None]
+                    if len(tr) != 1:
+                        continue
+                    if tr[0] == "uniform":
+                        continue
+                    at_v, c2 = tr[0]
+                    coef = coef * c2
+                n_a += 1
+                third = [v for v in verts if v not in (x, y)]
+                if at_v in verts and [at_v] != third:
+                    problems.append(f"edge ({x}, {y}) is weighted by the cotangent at {at_v}, the opposite vertex is {third[0]}")
+                if scale is not None and (abs(coef * scale) != Fraction(1, 2) or den):
+                    problems.append(f"the weight of edge ({x}, {y}) is {abs(coef * scale)} times the cotangent instead of one half")
+    # every edge of the face is assembled once in each direction
+    all_units = ST.units(st, V.body)
+    if len(all_units) > 1:
+        all_units = _merge_units(all_units) or []
+    for loop, paths in all_units:
+        verts = face_verts(loop)
+        if not verts:
+            continue
+        for path in paths:
+            offd = [(au.src(fold(e.row)), au.src(fold(e.col))) for e in path.entries if au.src(fold(e.row)) != au.src(fold(e.col))]
+            if not offd or path.unclear or not all(x in verts and y in verts for x, y in offd):
                 continue
-            edges.add(frozenset((x, y)))
-            third = [v for v in verts if v not in (x, y)]
-            defs = weights_of.get(w, [])
-            if not defs:
-                problems.append(f"weight `{w}` of edge ({x}, {y}) has no definition in the face loop")
-            for v, s in defs:
-                coef, num, den = H.factors(v)
-                if coef != Fraction(1, 2) or den:
-                    problems.append(f"weight `{w}` = `{au.src(v)}` is not one half of a cotangent (coefficient {coef})")
-                if num:
-                    call = [c for c in au.calls(num[0]) if au.call_tail(c) == "vertex_to_corner_in_face"]
-                    at_v = au.src(call[0].args[0]) if call and call[0].args else None
-                    if len(num) != 1 or at_v is None:
-                        problems.append(f"weight `{w}` = `{au.src(v)}` is not cot[corner of a vertex in the face]/2")
-                    elif [at_v] != third:
-                        problems.append(f"edge ({x}, {y}) is weighted by the cotangent at {at_v}, the opposite vertex is {third[0] if third else '?'}")
-        if len(edges) != 3 and not problems:
-            problems.append(f"{len(edges)} edges of the triangle are assembled")
-        ctx.check(not problems, "C08-O1", ctx.site(LAP, fn, lp), "laplacian: " + "; ".join(dict.fromkeys(problems)),
+            want = sorted((x, y) for x in verts for y in verts if x != y)
+            if sorted(offd) != want:
+                missing = [pq for pq in want if pq not in offd]
+                twice = sorted({pq for pq in offd if offd.count(pq) > 1})
+                problems.append(f"the off-diagonal entries of a face are {sorted(set(offd))}: " + (f"{missing} missing" if missing else "") + (f" {twice} emitted twice" if twice else ""))
+                n_a = max(n_a, 1)
+    if n_a == 0:
+        ctx.undecided("C08-O1", site, "laplacian: off-diagonal entries weighted by a corner cotangent `cot[vertex_to_corner_in_face(v, f)]` not recognised",
+                      "cotangent Laplacian: w_xy = (cot at the vertex opposite to edge xy) / 2 per triangle")
+    else:
+        ctx.check(not problems, "C08-O1", site, "laplacian: " + "; ".join(dict.fromkeys(problems)),
                   "cotangent Laplacian: w_xy = (cot at the vertex opposite to edge xy) / 2 per triangle",
                   note="each edge weighted by half the opposite cotangent")
     # (b) opposite local index 3 - iu - iv uses the indices returned for that very face
     n = 0
     for modname, name in ((LAP, "cotan_edge_diagonal"), ("attributes.attr_edges", "cotan_weights")):
         fn = ctx.repo.func(modname, name)
-        if not list(opposite_index_sites(fn)):
-            ctx.fail("C08-O1", ctx.site(modname, fn), f"{name}: opposite local index `3 - iu - iv` not found",
-                     "the corner / vertex opposite to an edge in a triangle is no longer addressed through the local indices of the edge")
-        for node, neg, others in opposite_index_sites(fn):
-            n += 1
-            st = au.enclosing_stmt(node)
+        V = H.fview(ctx, modname, fn)
+        for node, neg, others in opposite_index_sites(V):
+            stn = au.enclosing_stmt(node)
             defs = [_binding_stmt(x, node) for x in neg]
-            ok = defs[0] is not None and defs[0] is defs[1] and isinstance(defs[0], ast.Assign) and isinstance(defs[0].value, ast.Call) \
+            shape = defs[0] is not None and defs[0] is defs[1] and isinstance(defs[0], ast.Assign) and isinstance(defs[0].value, ast.Call) \
                 and au.call_tail(defs[0].value) == "direct_face" and isinstance(defs[0].targets[0], ast.Tuple) and len(defs[0].targets[0].elts) == 3
+            if not shape:
+                both_df = all(d is not None and isinstance(d, ast.Assign) and isinstance(d.value, ast.Call) and au.call_tail(d.value) == "direct_face" for d in defs)
+                if both_df and defs[0] is not defs[1]:
+                    n += 1
+                    ctx.fail("C08-O1", ctx.site(modname, fn, node), f"{name}: an opposite local index `3 - iu - iv` combines local indices returned by two different direct_face calls",
+                             "in a triangle the third vertex has local index 3 - iu - iv only when iu, iv are the positions of the edge in that same face")
+                continue        # another use of the arithmetic: not the construct of this rule
+            n += 1
+            tnames = [au.src(t) for t in defs[0].targets[0].elts]
+            face = tnames[0]
+            ok = set(neg) == set(tnames[1:])
+            used = None
+            par = au.parent(node)
+            if isinstance(par, ast.Subscript) and par.slice is node and isinstance(par.value, ast.Subscript):
+                used = au.src(par.value.slice)
+            else:
+                for c in au.calls(stn):
+                    if au.call_tail(c) == "face_to_first_corner" and c.args:
+                        used = au.src(c.args[0])
             face_ok = True
-            detail = ""
-            if ok:
-                tnames = [au.src(t) for t in defs[0].targets[0].elts]
-                face = tnames[0]
-                ok = set(neg) == set(tnames[1:])
-                # the face whose row / first corner is addressed
-                used = None
-                par = au.parent(node)
-                if isinstance(par, ast.Subscript) and par.slice is node and isinstance(par.value, ast.Subscript):
-                    used = au.src(par.value.slice)
-                else:
-                    for c in au.calls(st):
-                        if au.call_tail(c) == "face_to_first_corner" and c.args:
-                            used = au.src(c.args[0])
-                if used is not None:
-                    face_ok = used == face and _binding_stmt(face, node) is defs[0]
-                    detail = f" (face addressed: {used}, indices returned for {face})"
+            if used is not None:
+                face_ok = used == face and _binding_stmt(face, node) is defs[0]
             ctx.check(ok and face_ok, "C08-O1", ctx.site(modname, fn, node),
-                      f"{name}: opposite local index `{au.src(node)}` does not combine the two local indices returned by one direct_face(.., True) call "
-                      f"for the face it addresses{detail}",
+                      f"{name}: an opposite local index `3 - iu - iv` does not combine the two local indices returned by one direct_face(.., True) call "
+                      f"for the face it addresses",
                       "in a triangle the third vertex has local index 3 - iu - iv only when iu, iv are the positions of the edge in that same face",
                       note=f"{name}: 3 - iu - iv from one direct_face call")
-    ctx.require_count("C08-O1 opposite index sites", n, 1)
+    if n == 0:
+        ctx.ok("C08-O1", ctx.site(LAP, "<module>"), "no opposite-local-index arithmetic `3 - iu - iv` (corners addressed through the connectivity)")
 
 
 # ----------------------------------------------------------------------- C08-N1
-def _len_atom(b, e, at):
+def _len_poly(b, e, at, env=None):
     def f(x):
         if isinstance(x, ast.Call) and au.call_tail(x) == "len" and len(x.args) == 1:
             return "len(" + au.src(b.resolve(x.args[0], at=at)) + ")"
         return None
-    return sym.to_poly(b.resolve(e, at=at), atom_of=f)
+    r = b.resolve(e, at=at)
+    if env:
+        r = _specialise(r, env)
+    return sym.to_poly(r, atom_of=f, opaque=True)
 
 
-def _alloc_size(fn, b, arr):
-    for s in au.stmts(fn.body):
-        for name, v in sym.split_assign(s):
-            if name == arr and isinstance(v, ast.Call) and au.call_tail(v) in ("zeros", "ones", "empty") and v.args:
-                return _len_atom(b, v.args[0], s), s
-    return None, None
+def _trip_poly(F, b, lp):
+    """number of iterations of a loop as a polynomial over len(...) atoms, None when unknown"""
+    it = lp.iter
+    if isinstance(it, (ast.List, ast.Tuple)):
+        return Poly.const(len(it.elts))
+    L = he_seq.LoopCtx(F, lp.target, lp.iter, lp)
+    if L.seq is None or L.seq.length is None:
+        if isinstance(it, ast.Call) and isinstance(it.func, ast.Name) and it.func.id == "zip" and it.args:
+            for a in it.args:
+                s = F.seq(a, lp)
+                if s is not None and s.base and (s.base.split(".")[-1] in H.CONTAINERS or s.base.split(".")[-1] in H.ID_PROPS):
+                    return _seq_len(s)
+        return None
+    return _seq_len(L.seq)
+
+
+def _seq_len(s):
+    out = Poly()
+    for mono, c in s.length.t.items():
+        names = []
+        for a in mono:
+            if not a.startswith("N:"):
+                return None
+            base = a[2:]
+            tail = base.split(".")[-1]
+            if tail in H.ID_PROPS and tail.startswith("id_"):
+                base = base[: -len(tail)] + H.ID_PROPS[tail]
+            names.append(f"len({base})")
+        out = out + Poly({tuple(sorted(names)): c})
+    return out
 
 
 def n1_allocation(ctx):
@@ -1094,89 +1865,108 @@ def n1_allocation(ctx):
     for modname, name in ((LAP, "laplacian"), (LAP, "laplacian_edges"), (LAP, "graph_laplacian"), (ADJ, "adjacency_matrix"), (GRAD, "gradient")):
         fn = ctx.repo.func(modname, name)
         site = ctx.site(modname, fn)
-        b = sym.Bindings(fn)
-        st = H.Stencil(fn)
+        m = ctx.repo.module(modname)
+        V = H.fview(ctx, modname, fn)
+        F = he_seq.Forms(V, ctx.repo, m.name)
+        b = F.b
+        st = ST.Stencil(V)
         if not st.arrays:
-            ctx.fail("C08-N1", site, f"{name}: COO arrays not found", "")
+            ctx.undecided("C08-N1", site, f"{name}: COO arrays of the sparse constructor not recognised", "")
             continue
-        if name in ("adjacency_matrix",):
-            # fixed slots 2*e+k over the edges
-            for arr in st.arrays:
-                allocs = [(v, s) for s in au.stmts(fn.body) for nm, v in sym.split_assign(s) if nm == arr and isinstance(v, ast.Call) and v.args
-                          and au.call_tail(v) in ("zeros", "ones", "empty", "full")]
-                for v, s in allocs:
-                    n += 1
-                    size = _len_atom(b, v.args[0], s)
-                    ctx.check(size == Poly.atom("len(mesh.edges)").scale(2), "C08-N1", ctx.site(modname, fn, s),
-                              f"{name}: `{arr}` is allocated with {size} entries, two per edge are stored", "slots 2*e and 2*e+1 for every edge need 2|E| entries",
-                              note=f"{arr}: 2|E| entries")
+        allocs = [(arr, v, s) for arr in st.arrays for s in au.stmts(V.body) for nm, v in sym.split_assign(s) if nm == arr and isinstance(v, ast.Call) and v.args
+                  and au.call_tail(v) in ("zeros", "ones", "empty", "full")]
+        if name == "adjacency_matrix":
+            for arr, v, s in allocs:
+                size = _len_poly(b, v.args[0], s)
+                if any(a.startswith("⟨") for a in size.atoms()):
+                    continue
+                n += 1
+                ctx.check(size == Poly.atom("len(mesh.edges)").scale(2), "C08-N1", ctx.site(modname, fn, s),
+                          f"{name}: `{arr}` is allocated with {size} entries, two per edge are stored", "slots 2*e and 2*e+1 for every edge need 2|E| entries",
+                          note=f"{arr}: 2|E| entries")
             continue
-        if name == "gradient":
-            for s in au.stmts(fn.body):
-                pairs = list(sym.split_assign(s))
-                for nm, v in pairs:
-                    if nm in st.arrays and isinstance(v, ast.Call) and v.args:
-                        n += 1
-                        size = _len_atom(b, v.args[0], s)
-                        want = 3 if au.guards(s) and au.guards(s)[0][1] else 6
-                        ctx.check(size == Poly.atom("len(mesh.faces)").scale(want), "C08-N1", ctx.site(modname, fn, s),
-                                  f"{name}: `{nm}` is allocated with {size} entries in the branch that stores {want} per face", "",
-                                  note=f"{nm}: {want}|F| entries")
-            continue
-        us = units(st, fn.body)
-        size, alloc_st = _alloc_size(fn, b, st.arrays[0])
-        if size is None or not us:
-            ctx.fail("C08-N1", site, f"{name}: allocation of `{st.arrays[0]}` or assembly loop not found", "")
-            continue
-        total = Poly()
-        for loop, paths in us:
-            counts = set()
-            extra = Poly()
-            for conds, items in paths:
-                c = len(H.flat_emits(items))
-                for x in items:
-                    if isinstance(x, tuple) and x[0] == "loop" and any(H.flat_emits(i) for _, i in x[2]):
-                        it = b.resolve(x[1].iter, at=x[1])
-                        if isinstance(it, ast.Call) and au.call_tail(it) == "vertex_to_vertices":
-                            extra = Poly.atom("len(mesh.edges)").scale(2 * max(len(H.flat_emits(i)) for _, i in x[2]))   # handshake: sum of degrees = 2|E|
-                        else:
-                            extra = Poly.atom("?")
-                counts.add(c)
-            # trip count of the unit: product of enclosing loops
-            trip = Poly.const(1)
-            for lp in [loop] + [a for a in au.ancestors(loop) if isinstance(a, ast.For)]:
-                it = lp.iter
-                if isinstance(it, (ast.List, ast.Tuple)):
-                    trip = trip * len(it.elts)
-                elif isinstance(it, ast.Call) and au.call_tail(it) == "enumerate" and it.args:
-                    trip = trip * Poly.atom("len(" + au.src(b.resolve(it.args[0], at=lp)) + ")")
-                elif au.chain(it) and au.chain(it)[-1] in H.ID_PROPS and au.chain(it)[-1].startswith("id_"):
-                    trip = trip * Poly.atom("len(mesh." + H.ID_PROPS[au.chain(it)[-1]] + ")")
-                else:
-                    trip = trip * Poly.atom("?")
-            if len(counts) != 1:
-                total = total + Poly.atom("?")
+        if not allocs:
+            if any(isinstance(v, (ast.List,)) for arr in st.arrays for s in au.stmts(V.body) for nm, v in sym.split_assign(s) if nm == arr):
+                ctx.ok("C08-N1", site, f"{name}: entries are appended to lists (no fixed allocation)")
             else:
-                total = total + trip * counts.pop() + (extra if not extra.is_zero() else Poly())
-        n += 1
-        ctx.check(total == size, "C08-N1", ctx.site(modname, fn, alloc_st),
-                  f"{name}: {size} coefficients are allocated but the assembly emits {total}",
-                  "fewer slots than entries raises IndexError on the last faces; the count documents the stencil (entries per element)",
-                  note=f"{name}: allocated = emitted = {size}")
-    ctx.require_count("C08-N1 allocation sites", n, 3)
+                ctx.undecided("C08-N1", site, f"{name}: allocation of the COO arrays not recognised", "")
+            continue
+        try:
+            us = ST.units(st, V.body)
+        except OverflowError:
+            us = []
+        if not us:
+            ctx.undecided("C08-N1", site, f"{name}: assembly loop not recognised", "")
+            continue
+        # options the allocation may depend on (gradient: as_complex): one comparison per assignment appearing in the path conditions
+        flags = sorted({t.id for lp, paths in us for p in paths for t, pol in (au.strip_not(*c) for c in p.conds) if isinstance(t, ast.Name) and t.id in au.params(fn)}
+                       | {t.id for lp, paths in us for t, pol in H.facts(lp, toplevel=False) if isinstance(t, ast.Name) and t.id in au.params(fn)})
+        for vals in itertools.product((True, False), repeat=len(flags)):
+            env = dict(zip(flags, vals))
+            total, unknown = Poly(), False
+            for loop, paths in us:
+                if any(isinstance(t, ast.Name) and t.id in env and env[t.id] != pol for t, pol in H.facts(loop, toplevel=False)):
+                    continue
+                counts = set()
+                extra = Poly()
+                for path in paths:
+                    ok_path = True
+                    for t, pol in path.conds:
+                        t, pol = au.strip_not(t, pol)
+                        if isinstance(t, ast.Name) and t.id in env and env[t.id] != pol:
+                            ok_path = False
+                    if not ok_path:
+                        continue
+                    c = len([e for e in path.entries if e.mode == "coo"])
+                    for _, lp2, sub in nested_with_entries(path):
+                        it = b.resolve(lp2.iter, at=lp2)
+                        per = {len(q.entries) for q in sub if not q.stop} or {0}
+                        if isinstance(it, ast.Call) and au.call_tail(it) == "vertex_to_vertices" and len(per) == 1:
+                            extra = Poly.atom("len(mesh.edges)").scale(2 * per.pop())   # handshake: sum of degrees = 2|E|
+                        else:
+                            unknown = True
+                    counts.add(c)
+                trip = Poly.const(1)
+                for lp in [loop] + [a for a in au.ancestors(loop) if isinstance(a, ast.For)]:
+                    t = _trip_poly(F, b, lp)
+                    if t is None:
+                        unknown = True
+                    else:
+                        trip = trip * t
+                if len(counts) != 1:
+                    unknown = True
+                else:
+                    total = total + trip.scale(counts.pop()) + extra
+            mine = [a for a in allocs if a[0] == st.arrays[0] and not any(isinstance(t, ast.Name) and t.id in env and env[t.id] != pol
+                                                                         for t, pol in H.facts(a[2], toplevel=False))]
+            for arr, v, s in mine[:1]:
+                size = _len_poly(b, v.args[0], s, env)
+                lab = name + (" [" + ", ".join(f"{k}={v}" for k, v in env.items()) + "]" if env else "")
+                if unknown or any(a.startswith("⟨") for a in size.atoms()) or any(isinstance(x, ast.IfExp) for x in ast.walk(_specialise(b.resolve(v.args[0], at=s), env))):
+                    ctx.undecided("C08-N1", ctx.site(modname, fn, s), f"{lab}: the number of entries emitted / allocated is not read as a multiple of the element counts", "")
+                    continue
+                n += 1
+                ctx.check(total == size, "C08-N1", ctx.site(modname, fn, s),
+                          f"{lab}: {size} coefficients are allocated but the assembly emits {total}",
+                          "fewer slots than entries raises IndexError on the last elements; more slots leave spurious zero entries; the count documents the stencil",
+                          note=f"{lab}: allocated = emitted = {size}")
+    floor(ctx, "C08-N1", n, 1, LAP, "allocation site(s)")
 
 
 # ----------------------------------------------------------------------- C08-T1
 def t1_transport(ctx):
     n = 0
     for cls in ("SurfaceConnectionFaces", "SurfaceConnectionEdges"):
-        fn = ctx.repo.func(CONN, cls + "._initialize")
-        site = ctx.site(CONN, fn)
-        b = sym.Bindings(fn)
-        stores = [s for s in au.stmts(fn.body) if isinstance(s, ast.Assign) and len(s.targets) == 1 and isinstance(s.targets[0], ast.Subscript)
+        fn, V = _method_view(ctx, CONN, cls, "_initialize")
+        site = ctx.site(CONN, cls + "._initialize")
+        if V is None:
+            ctx.undecided("C08-T1", site, f"{cls}._initialize not found", "")
+            continue
+        b = sym.Bindings(V)
+        stores = [s for s in au.stmts(V.body) if isinstance(s, ast.Assign) and len(s.targets) == 1 and isinstance(s.targets[0], ast.Subscript)
                   and au.is_self_attr(s.targets[0].value, "_transport") and isinstance(s.targets[0].slice, ast.Tuple) and len(s.targets[0].slice.elts) == 2]
         if not stores:
-            ctx.fail("C08-T1", site, f"{cls}: stores into self._transport[(a, b)] not found", "")
+            ctx.undecided("C08-T1", site, f"{cls}: stores into self._transport[(a, b)] not recognised", "")
             continue
         done = set()
         for s in stores:
@@ -1188,8 +1978,16 @@ def t1_transport(ctx):
                        and [au.src(x) for x in t.targets[0].slice.elts] == [c, a]]
             n += 1
             if not partner or a == c:
-                ctx.fail("C08-T1", ctx.site(CONN, fn, s), f"{cls}: transport ({a}, {c}) is stored without its reverse ({c}, {a}) in the same block",
-                         "laplacian_edges / laplacian_triangles are Hermitian only if the transport is antisymmetric")
+                other_writes = [x for x in au.walk(V) if (isinstance(x, ast.Call) and isinstance(x.func, ast.Attribute) and au.is_self_attr(x.func.value, "_transport")
+                                                          and x.func.attr in ("update", "setdefault", "__setitem__"))
+                                or (isinstance(x, ast.Subscript) and isinstance(x.ctx, ast.Store) and au.is_self_attr(x.value, "_transport") and x is not s.targets[0]
+                                    and not (isinstance(x.slice, ast.Tuple) and len(x.slice.elts) == 2))]
+                elsewhere = [t for t in stores if t is not s and [au.src(x) for x in t.targets[0].slice.elts] == [c, a]]
+                if other_writes or elsewhere:
+                    ctx.undecided("C08-T1", ctx.site(CONN, fn, s), f"{cls}: the reverse of a stored transport (a, b) is not written next to it", "")
+                else:
+                    ctx.fail("C08-T1", ctx.site(CONN, fn, s), f"{cls}: a transport (a, b) is stored without its reverse (b, a)",
+                             "laplacian_edges / laplacian_triangles are Hermitian only if the transport is antisymmetric")
                 continue
             t = partner[0]
             done.update((id(s), id(t)))
@@ -1203,40 +2001,61 @@ def t1_transport(ctx):
                 return None
             p2 = sym.to_poly(b.resolve(second.value, at=second), atom_of=atom)
             ctx.check((p1 + p2).is_zero(), "C08-T1", ctx.site(CONN, fn, s),
-                      f"{cls}: transport ({a}, {c}) + transport ({c}, {a}) = {p1 + p2}, not zero",
+                      f"{cls}: transport (a, b) + transport (b, a) = {p1 + p2}, not zero",
                       "parallel transport between two elements must be antisymmetric: the Hermitian pairing of the connection Laplacians relies on it",
-                      note=f"{cls}: T[({a},{c})] = -T[({c},{a})]")
-    ctx.require_count("C08-T1 transport pairs", n, 1)
+                      note=f"{cls}: T[(a,b)] = -T[(b,a)]")
+    floor(ctx, "C08-T1", n, 1, CONN, "transport pair(s)")
 
 
 # ----------------------------------------------------------------------- C08-D1
 def d1_inverse_branch(ctx):
     fn = ctx.repo.func(LAP, "cotan_edge_diagonal")
     site = ctx.site(LAP, fn)
-    tests = [s for s in au.stmts(fn.body) if isinstance(s, ast.If) and isinstance(s.test, ast.Name) and s.test.id == "inverse" and s.orelse]
-    if len(tests) != 1:
-        ctx.fail("C08-D1", site, "cotan_edge_diagonal: `if inverse: ... else: ...` not found", "")
-        return
-    t = tests[0]
-
-    def stores(body):
-        return [s for s in au.stmts(body) if isinstance(s, ast.Assign) and isinstance(s.targets[0], ast.Subscript)]
-    direct = stores(t.orelse)
-    inv = [s for s in stores(t.body) if not isinstance(s.value, ast.Constant)]
-    ok = len(direct) == 1 and len(inv) == 1 and au.same(direct[0].targets[0], inv[0].targets[0])
-    if ok:
-        v = inv[0].value
-        ok = isinstance(v, ast.BinOp) and isinstance(v.op, ast.Div) and au.const(v.left) in (1, 1.0) \
-            and sym.to_poly(v.right) == sym.to_poly(direct[0].value)
-    ctx.check(ok, "C08-D1", ctx.site(LAP, fn, t), "cotan_edge_diagonal: the inverse branch is not 1/(value of the direct branch) stored at the same place",
-              "M and M^-1 must be inverse diagonals", note="inverse branch = 1/x of the direct branch")
+    V = H.fview(ctx, LAP, fn)
+    b = sym.Bindings(V)
+    e = he_norm.return_expr(V)
+    arr = None
+    if isinstance(e, ast.Call) and e.args and isinstance(e.args[0], ast.Name):
+        arr = e.args[0].id
+    stores = [s for s in au.stmts(V.body) if isinstance(s, ast.Assign) and len(s.targets) == 1 and isinstance(s.targets[0], ast.Subscript)
+              and isinstance(s.targets[0].value, ast.Name) and s.targets[0].value.id == arr] if arr else []
+    if "inverse" not in au.params(fn) or not stores:
+        ctx.undecided("C08-D1", site, "cotan_edge_diagonal: stores of the diagonal coefficients under the `inverse` option not recognised", "")
+    else:
+        inv = [s for s in stores if H.flag_polarity(s, "inverse") is True and not isinstance(s.value, ast.Constant)]
+        direct = [s for s in stores if H.flag_polarity(s, "inverse") is not True]
+        if not inv or not direct:
+            ctx.undecided("C08-D1", site, "cotan_edge_diagonal: direct and inverse stores of the diagonal not both recognised", "")
+        else:
+            problems, und = [], []
+            for s in inv:
+                v = b.resolve(s.value, at=s, keep=(arr,))
+                if not (isinstance(v, ast.BinOp) and isinstance(v.op, ast.Div) and au.const(v.left) in (1, 1.0)):
+                    und.append("the inverse store is not of the form 1 / x")
+                    continue
+                self_elem = au.norm(v.right) == H.load_key(s.targets[0])
+                same_val = any(sym.to_poly(v.right) == sym.to_poly(b.resolve(d.value, at=d, keep=(arr,))) for d in direct)
+                uncond_direct = any(H.flag_polarity(d, "inverse") is None for d in direct)
+                if self_elem and uncond_direct:
+                    continue            # second pass inverting the stored coefficient in place
+                if same_val and not self_elem:
+                    continue
+                problems.append(f"with inverse=True the stored coefficient is `{au.src(v)}`, not the inverse of the direct coefficient")
+            if problems:
+                ctx.fail("C08-D1", ctx.site(LAP, fn, inv[0]), "cotan_edge_diagonal: " + "; ".join(dict.fromkeys(problems)), "M and M^-1 must be inverse diagonals")
+            elif und:
+                ctx.undecided("C08-D1", ctx.site(LAP, fn, inv[0]), "cotan_edge_diagonal: " + "; ".join(dict.fromkeys(und)), "")
+            else:
+                ctx.ok("C08-D1", ctx.site(LAP, fn, inv[0]), "inverse branch = 1/x of the direct branch")
     # the two half weights come from the two sides of the edge
-    b = sym.Bindings(fn)
-    sides = [s for s in au.stmts(fn.body) if isinstance(s, ast.Assign) and isinstance(s.value, ast.Call) and au.call_tail(s.value) == "direct_face"]
-    args = [[au.src(a) for a in s.value.args[:2]] for s in sides]
-    ctx.check(len(args) == 2 and args[0] == args[1][::-1] and args[0][0] != args[0][1], "C08-D1", site,
-              f"cotan_edge_diagonal: the two incident faces are queried as direct_face{tuple(args[0]) if args else ''} and direct_face{tuple(args[1]) if len(args) > 1 else ''}",
-              "the two triangles of an edge (u,v) are direct_face(u,v) and direct_face(v,u)", note="both sides of the edge")
+    sides = [c for c in au.calls(V) if au.call_tail(c) == "direct_face" and len(c.args) >= 2]
+    args = [[au.src(a) for a in c.args[:2]] for c in sides]
+    if len(args) != 2:
+        ctx.undecided("C08-D1", site, "cotan_edge_diagonal: the two direct_face queries of an edge not recognised", "")
+    else:
+        ctx.check(args[0] == args[1][::-1] and args[0][0] != args[0][1], "C08-D1", site,
+                  f"cotan_edge_diagonal: the two incident faces are queried with the same orientation of the edge",
+                  "the two triangles of an edge (u,v) are direct_face(u,v) and direct_face(v,u)", note="both sides of the edge")
 
 
 # ----------------------------------------------------------------------- C08-B1
@@ -1246,91 +2065,104 @@ def b1_local_bases(ctx):
     n = 0
     # project
     for cls in ("SurfaceConnection", "FlatConnectionVertices", "FlatConnectionFaces"):
-        fn = ctx.repo.func(CONN, cls + ".project")
-        r = [s for s in au.stmts(fn.body) if isinstance(s, ast.Return) and s.value is not None]
-        ok = False
-        if len(r) == 1 and isinstance(r[0].value, ast.Call) and len(r[0].value.args) == 2:
+        fn, V = _method_view(ctx, CONN, cls, "project")
+        site = ctx.site(CONN, cls + ".project")
+        e = he_norm.return_expr(V) if V is not None else None
+        ok = None
+        if isinstance(e, ast.Call) and len(e.args) == 2:
             bases = []
-            for a in r[0].value.args:
+            for a in e.args:
                 names = {x.attr for x in ast.walk(a) if isinstance(x, ast.Attribute) and x.attr in ("_baseX", "_baseY")}
                 bases.append(names)
-            ok = bases == [{"_baseX"}, {"_baseY"}] and all(isinstance(a, ast.Call) and au.call_tail(a) == "dot" for a in r[0].value.args)
+            dots = all(isinstance(a, ast.Call) and au.call_tail(a) == "dot" for a in e.args)
+            if all(bases) and dots:
+                ok = bases == [{"_baseX"}, {"_baseY"}]
         n += 1
-        ctx.check(ok, "C08-B1", ctx.site(CONN, fn), f"{cls}.project does not return (baseX . V, baseY . V)",
-                  "gradient() reads (x, y) = project(...): swapped or mixed components rotate every gradient", note=f"{cls}.project = (X.V, Y.V)")
+        if ok is None:
+            ctx.undecided("C08-B1", site, f"{cls}.project: returned pair (baseX . V, baseY . V) not recognised", "")
+        else:
+            ctx.check(ok, "C08-B1", site, f"{cls}.project does not return (baseX . V, baseY . V)",
+                      "gradient() reads (x, y) = project(...): swapped or mixed components rotate every gradient", note=f"{cls}.project = (X.V, Y.V)")
     # faces: X, Y from face_basis in order
-    fn = ctx.repo.func(CONN, "SurfaceConnectionFaces._initialize")
-    b = sym.Bindings(fn)
-    fb = [s for s in au.stmts(fn.body) if isinstance(s, ast.Assign) and isinstance(s.value, ast.Call) and au.call_tail(s.value) == "face_basis"
+    fn, V = _method_view(ctx, CONN, "SurfaceConnectionFaces", "_initialize")
+    site = ctx.site(CONN, "SurfaceConnectionFaces._initialize")
+    b = sym.Bindings(V)
+    fb = [s for s in au.stmts(V.body) if isinstance(s, ast.Assign) and isinstance(s.value, ast.Call) and au.call_tail(s.value) == "face_basis"
           and isinstance(s.targets[0], ast.Tuple) and len(s.targets[0].elts) == 3]
-    ok = False
+    ok = None
     if len(fb) == 1:
         x, y, _ = (au.src(t) for t in fb[0].targets[0].elts)
         blk, _o = au.enclosing_block(fb[0])
-        st = {s.targets[0].value.attr: au.src(s.value) for s in blk if isinstance(s, ast.Assign) and isinstance(s.targets[0], ast.Subscript)
-              and au.is_self_attr(s.targets[0].value)}
-        ok = st.get("_baseX") == x and st.get("_baseY") == y
+        stt = {s.targets[0].value.attr: au.src(b.resolve(s.value, at=s, keep=(x, y))) for s in blk if isinstance(s, ast.Assign) and isinstance(s.targets[0], ast.Subscript)
+               and au.is_self_attr(s.targets[0].value)}
+        if "_baseX" in stt and "_baseY" in stt and {stt["_baseX"], stt["_baseY"]} <= {x, y, au.src(fb[0].targets[0].elts[2])}:
+            ok = stt.get("_baseX") == x and stt.get("_baseY") == y
     n += 1
-    ctx.check(ok, "C08-B1", ctx.site(CONN, fn), "SurfaceConnectionFaces: (baseX, baseY) are not the first and second vector of geom.face_basis of the face",
-              "face_basis returns a right-handed (X, Y, normal)", note="face bases = (X, Y) of face_basis")
+    if ok is None:
+        ctx.undecided("C08-B1", site, "SurfaceConnectionFaces: stores of (baseX, baseY) from geom.face_basis of the face not recognised", "")
+    else:
+        ctx.check(ok, "C08-B1", site, "SurfaceConnectionFaces: (baseX, baseY) are not the first and second vector of geom.face_basis of the face",
+                  "face_basis returns a right-handed (X, Y, normal)", note="face bases = (X, Y) of face_basis")
     # transport angles atan2(E.Y_k, E.X_k)
-    at = [c for c in au.calls(fn) if au.call_tail(c) == "atan2" and len(c.args) == 2]
+    at = [c for c in au.calls(V) if au.call_tail(c) in ("atan2", "arctan2") and len(c.args) == 2]
     for c in at:
-        n += 1
         ry, rx = (b.resolve(a, at=c) for a in c.args)
 
         def base_of(e):
             hits = [(x.value.attr, au.src(x.slice)) for x in ast.walk(e) if isinstance(x, ast.Subscript) and au.is_self_attr(x.value) and x.value.attr in ("_baseX", "_baseY")]
             return hits[0] if len(hits) == 1 else None
         by, bx = base_of(ry), base_of(rx)
-        ok = by is not None and bx is not None and by[0] == "_baseY" and bx[0] == "_baseX" and by[1] == bx[1]
-        ctx.check(ok, "C08-B1", ctx.site(CONN, fn, c), f"SurfaceConnectionFaces: edge angle `{au.src(c)}` is not atan2(E . baseY[T], E . baseX[T]) in one face basis",
+        if by is None or bx is None:
+            continue
+        n += 1
+        ok = by[0] == "_baseY" and bx[0] == "_baseX" and by[1] == bx[1]
+        ctx.check(ok, "C08-B1", ctx.site(CONN, fn, c), "SurfaceConnectionFaces: an edge angle is not atan2(E . baseY[T], E . baseX[T]) in one face basis",
                   "the angle of the shared edge must be measured counter-clockwise from X in each face's own basis", note="edge angle = atan2(E.Y, E.X)")
     # vertices / edges: Y = normal x X
-    for cls, normal in (("SurfaceConnectionVertices", None), ("SurfaceConnectionEdges", None)):
-        fn = ctx.repo.func(CONN, cls + "._initialize")
-        b = sym.Bindings(fn)
-        sy = [s for s in au.stmts(fn.body) if isinstance(s, ast.Assign) and isinstance(s.targets[0], ast.Subscript) and au.is_self_attr(s.targets[0].value, "_baseY")]
-        sx = [s for s in au.stmts(fn.body) if isinstance(s, ast.Assign) and isinstance(s.targets[0], ast.Subscript) and au.is_self_attr(s.targets[0].value, "_baseX")]
-        ok = False
+    for cls in ("SurfaceConnectionVertices", "SurfaceConnectionEdges"):
+        fn, V = _method_view(ctx, CONN, cls, "_initialize")
+        site = ctx.site(CONN, cls + "._initialize")
+        b = sym.Bindings(V)
+        sy = [s for s in au.stmts(V.body) if isinstance(s, ast.Assign) and isinstance(s.targets[0], ast.Subscript) and au.is_self_attr(s.targets[0].value, "_baseY")]
+        sx = [s for s in au.stmts(V.body) if isinstance(s, ast.Assign) and isinstance(s.targets[0], ast.Subscript) and au.is_self_attr(s.targets[0].value, "_baseX")]
+        ok = None
         if len(sy) == 1 and len(sx) == 1 and au.same(sx[0].targets[0].slice, sy[0].targets[0].slice):
             yval = b.resolve(sy[0].value, at=sy[0])
             cr = [c for c in ast.walk(yval) if isinstance(c, ast.Call) and au.call_tail(c) == "cross" and len(c.args) == 2]
             cr = [c for c in cr if not any(c is not d and any(c is x for x in ast.walk(d)) for d in cr)]   # outermost
             if len(cr) == 1:
                 second = b.resolve(cr[0].args[1], at=sy[0])
+                first = b.resolve(cr[0].args[0], at=sy[0])
                 xval = b.resolve(sx[0].value, at=sx[0])
                 key = au.norm(sx[0].targets[0]).replace("Store()", "Load()")
-                x_ok = au.same(second, xval) or au.norm(cr[0].args[1]) == key
-                first = b.resolve(cr[0].args[0], at=sy[0])
-                ok = x_ok and not au.same(first, xval) and au.norm(cr[0].args[0]) != key
+                is_x = lambda e, raw: au.same(e, xval) or au.norm(raw) == key
+                if is_x(second, cr[0].args[1]) and not is_x(first, cr[0].args[0]):
+                    ok = True
+                elif is_x(first, cr[0].args[0]) and not is_x(second, cr[0].args[1]):
+                    ok = False
         n += 1
-        ctx.check(ok, "C08-B1", ctx.site(CONN, fn), f"{cls}: baseY is not cross(normal, baseX) of the same element",
-                  "the tangent basis must be right handed with respect to the normal: cross(X, Y) = N", note=f"{cls}: Y = N x X")
+        if ok is None:
+            ctx.undecided("C08-B1", site, f"{cls}: stores baseX / baseY = cross(normal, baseX) of the same element not recognised", "")
+        else:
+            ctx.check(ok, "C08-B1", site, f"{cls}: baseY is cross(baseX, normal), not cross(normal, baseX)",
+                      "the tangent basis must be right handed with respect to the normal: cross(X, Y) = N", note=f"{cls}: Y = N x X")
     if len(at) < 2:
-        fn = ctx.repo.func(CONN, "SurfaceConnectionFaces._initialize")
-        ctx.fail("C08-B1", ctx.site(CONN, fn), "SurfaceConnectionFaces: the two edge angles atan2(E . Y, E . X) of an interior edge not found", "")
-    ctx.require_count("C08-B1 basis sites", n, 4)
+        ctx.undecided("C08-B1", ctx.site(CONN, "SurfaceConnectionFaces._initialize"), "SurfaceConnectionFaces: the two edge angles atan2(E . Y, E . X) of an interior edge not recognised", "")
 
 
 # ----------------------------------------------------------------------- C08-W1
-def _holds(guards, name, notnone=()):
-    """is the option `name` known to be true at a node with these guards (or one of `notnone` known to be not None)?"""
-    for t, pol in guards:
-        conj = t.values if isinstance(t, ast.BoolOp) and isinstance(t.op, ast.And) else [t]
-        if pol:
-            for x in conj:
-                if isinstance(x, ast.Name) and x.id == name:
+def _cotan_true(node, notnone=()):
+    """is the option `cotan` known to be true at node (or one of the holders of cotangent data known to be not None)?"""
+    if H.flag_polarity(node, "cotan") is True:
+        return True
+    for t, pol in H.facts(node, toplevel=True):
+        conj = t.values if isinstance(t, ast.BoolOp) and isinstance(t.op, ast.And) and pol else [t]
+        for x in conj:
+            x, p = au.strip_not(x, pol)
+            if isinstance(x, ast.Compare) and len(x.ops) == 1 and isinstance(x.left, ast.Name) and x.left.id in notnone \
+                    and isinstance(x.comparators[0], ast.Constant) and x.comparators[0].value is None:
+                if (isinstance(x.ops[0], ast.IsNot) and p) or (isinstance(x.ops[0], ast.Is) and not p):
                     return True
-                if isinstance(x, ast.Compare) and len(x.ops) == 1 and isinstance(x.ops[0], ast.IsNot) and isinstance(x.left, ast.Name) \
-                        and x.left.id in notnone and au.const(x.comparators[0], 0) is None:
-                    return True
-        else:
-            if isinstance(t, ast.UnaryOp) and isinstance(t.op, ast.Not) and isinstance(t.operand, ast.Name) and t.operand.id == name:
-                return True
-            if isinstance(t, ast.Compare) and len(t.ops) == 1 and isinstance(t.ops[0], ast.Is) and isinstance(t.left, ast.Name) \
-                    and t.left.id in notnone and au.const(t.comparators[0], 0) is None:
-                return True
     return False
 
 
@@ -1341,39 +2173,46 @@ def w1_option_dominance(ctx):
         fn = ctx.repo.func(LAP, name)
         site = ctx.site(LAP, fn)
         if "cotan" not in au.params(fn):
-            ctx.fail("C08-W1", site, f"{name}: the `cotan` option not found", "")
+            ctx.undecided("C08-W1", site, f"{name}: the `cotan` option not found", "")
             continue
+        V = H.fview(ctx, LAP, fn)
         sources = []
-        for c in au.calls(fn):
+        for c in au.calls(V):
             t = au.call_tail(c)
             if t == "get_attribute" and c.args and au.const(c.args[0]) == "cotan":
                 sources.append(c)
-            elif t in ("cotangent", "cotan_edge_diagonal"):
+            elif t in ("cotangent", "cotan_edge_diagonal", "cotan_weights"):
                 sources.append(c)
         if not sources:
-            ctx.fail("C08-W1", site, f"{name}: source of the cotangent weights (cached \"cotan\" attribute / cotangent() / cotan_edge_diagonal()) not found",
-                     "the cotan=True branch must take its weights from the corner cotangents")
+            ctx.undecided("C08-W1", site, f"{name}: source of the cotangent weights (cached \"cotan\" attribute / cotangent() / cotan_edge_diagonal()) not recognised",
+                          "the cotan=True branch must take its weights from the corner cotangents")
             continue
         holders = set()
         for c in sources:
             st = au.enclosing_stmt(c)
-            if isinstance(st, ast.Assign) and st.value is c:
+            if isinstance(st, ast.Assign) and any(c is x for x in ast.walk(st.value)):
                 holders |= {t.id for t in st.targets if isinstance(t, ast.Name)}
+        # a holder that is None exactly when cotan is false may stand for the option itself (`if cot is not None`)
+        guarded_holders = set()
+        for h in holders:
+            binds = [s for s in au.stmts(V.body) if sym.Bindings._assigns(s, h, deep=False)]
+            if binds and all(_cotan_true(next(c for c in sources if any(c is x for x in ast.walk(s))), ()) if any(c is x for c in sources for x in ast.walk(s))
+                             else (isinstance(s, ast.Assign) and isinstance(s.value, ast.Constant) and s.value.value is None) for s in binds):
+                guarded_holders.add(h)
         for c in sources:
-            ctx.check(_holds(au.guards(c), "cotan"), "C08-W1", ctx.site(LAP, fn, c),
+            ctx.check(_cotan_true(c), "C08-W1", ctx.site(LAP, fn, c),
                       f"{name}: `{au.src(c)}` is evaluated whatever the value of the `cotan` option",
                       "with cotan=False the operator must have uniform weights; if cotangent data is fetched regardless (e.g. because a cached "
                       "\"cotan\" attribute exists) the result depends on what was computed on the mesh before",
                       note=f"{name}: `{au.src(c)[:40]}` only under cotan=True")
-        for n in au.walk(fn):
+        for n in au.walk(V):
             if isinstance(n, ast.Subscript) and isinstance(n.value, ast.Name) and n.value.id in holders and isinstance(n.ctx, ast.Load):
-                ctx.check(_holds(au.guards(n), "cotan", holders), "C08-W1", ctx.site(LAP, fn, n),
-                          f"{name}: cotangent value `{au.src(n)}` is read outside the control of the `cotan` option",
+                ctx.check(_cotan_true(n, guarded_holders), "C08-W1", ctx.site(LAP, fn, n),
+                          f"{name}: a cotangent value `{n.value.id}[..]` is read outside the control of the `cotan` option",
                           "the uniform-weight branch must not use cotangents", note=f"{name}: `{au.src(n)[:30]}` read under cotan")
 
 
 # ----------------------------------------------------------------------- C08-E1
 def e1_edge_sides(ctx):
     from .c07 import edge_sides_rule
-    n = edge_sides_rule(ctx, "C08-E1", [(LAP, "cotan_edge_diagonal"), (MASS, "area_weight_matrix_edges"), (CONN, "SurfaceConnectionEdges._initialize")])
-    ctx.require_count("C08-E1 two-sided edge loops", n, 1)
+    edge_sides_rule(ctx, "C08-E1", [(LAP, "cotan_edge_diagonal"), (MASS, "area_weight_matrix_edges"), (CONN, "SurfaceConnectionEdges._initialize")])
